@@ -3,6 +3,7 @@
   the collapse.  (header completed below, see the theorem docstrings)
 -/
 import Honeycomb.Props.C15b
+import Honeycomb.Lemmas.RemeshValues
 
 set_option linter.unusedSimpArgs false
 set_option linter.unusedVariables false
@@ -549,9 +550,11 @@ theorem C15_collapse_midpoint_face_count (cfg : Cfg Val) (m m' : Map Val) (e v :
     rw [this] at hdu
     exact absurd hdu (by simp)
 
-/-- **C15 (1), faces, inner cut**: before the call `iter_faces` counts the two triangles and the six spare darts, after it
-    the four new triangles: `#faces' + 4 = #faces`, i.e. the MESH gains two faces -/
-theorem C15_cutInner_face_count (cfg : Cfg Val) (m m' : Map Val) (e n1 n2 n3 n4 n5 n6 : Nat) (hwf : WF 3 m)
+/-- **C15 (2), inner cut, the faces**: the result is well formed; the four new triangles `e → n1 → b`, `n3 → a → n2`,
+    `r → n4 → d`, `n6 → c → n5` are faces with the smallest of their three darts as identifier; every dart outside the
+    twelve keeps its face (same darts, same identifier); before the call `iter_faces` counts the two triangles and the six
+    spare darts, after it the four new triangles: `#faces' + 4 = #faces`, i.e. the MESH gains two faces -/
+theorem C15_cutInner_faces (cfg : Cfg Val) (m m' : Map Val) (e n1 n2 n3 n4 n5 n6 : Nat) (hwf : WF 3 m)
     (he : C01.InUse m e)
     (h : run (cutInnerEdge cfg m.n e n1 n2 n3 n4 n5 n6) m = (.ok (), m'))
     (hr0 : m.β 2 e ≠ 0)
@@ -559,6 +562,17 @@ theorem C15_cutInner_face_count (cfg : Cfg Val) (m m' : Map Val) (e n1 n2 n3 n4 
     (htr : m.β 1 (m.β 1 (m.β 2 e)) = m.β 0 (m.β 2 e)) (hd : m.β 0 (m.β 2 e) ≠ 0)
     (hs : ∀ x, x ∈ [n1, n2, n3, n4, n5, n6] → Spare m x)
     (hnd : [e, m.β 2 e, m.β 1 e, m.β 0 e, m.β 1 (m.β 2 e), m.β 0 (m.β 2 e), n1, n2, n3, n4, n5, n6].Nodup) :
+    WF 3 m' ∧
+    (cellId m' .face e = min e (min n1 (m.β 0 e)) ∧ cellId m' .face n3 = min n3 (min (m.β 1 e) n2) ∧
+      cellId m' .face (m.β 2 e) = min (m.β 2 e) (min n4 (m.β 0 (m.β 2 e))) ∧
+      cellId m' .face n6 = min n6 (min (m.β 1 (m.β 2 e)) n5)) ∧
+    (cellId m' .face n1 = cellId m' .face e ∧ cellId m' .face (m.β 0 e) = cellId m' .face e ∧
+      cellId m' .face (m.β 1 e) = cellId m' .face n3 ∧ cellId m' .face n2 = cellId m' .face n3 ∧
+      cellId m' .face n4 = cellId m' .face (m.β 2 e) ∧ cellId m' .face (m.β 0 (m.β 2 e)) = cellId m' .face (m.β 2 e) ∧
+      cellId m' .face (m.β 1 (m.β 2 e)) = cellId m' .face n6 ∧ cellId m' .face n5 = cellId m' .face n6) ∧
+    (∀ d, d ≠ 0 → d < m.n →
+      d ∉ [e, m.β 2 e, m.β 1 e, m.β 0 e, m.β 1 (m.β 2 e), m.β 0 (m.β 2 e), n1, n2, n3, n4, n5, n6] →
+      (∀ x, x ∈ orb m' .face d ↔ x ∈ orb m .face d) ∧ cellId m' .face d = cellId m .face d) ∧
     (iterFaces2 m').length + 4 = (iterFaces2 m).length := by
   have hn := he.2.1
   have hr : m.β 2 e < m.n := hwf.range 2 (by omega) e hn
@@ -592,23 +606,34 @@ theorem C15_cutInner_face_count (cfg : Cfg Val) (m m' : Map Val) (e n1 n2 n3 n4 
   obtain ⟨w7, w8, w9⟩ := faceIds_triangle hw' hr0 (by rw [hn']; exact hr) s4.1.1 hd p7 p8 p9
   obtain ⟨w10, w11, w12⟩ := faceIds_triangle hw' s6.1.1 (by rw [hn']; exact s6.1.2.1) c0 s5.1.1 p10 p11 p12
   have hu' : ∀ d, m'.unused d = m.unused d := fun d => by unfold Map.unused; rw [hu]
-  have cnt := iterFaces_count hwf hw' hn' [e, m.β 2 e, m.β 1 e, m.β 0 e, m.β 1 (m.β 2 e), m.β 0 (m.β 2 e), n1, n2, n3, n4, n5, n6]
-    [min (e) (min (m.β 1 e) (m.β 0 e)), min (m.β 2 e) (min (m.β 1 (m.β 2 e)) (m.β 0 (m.β 2 e))), n1, n2, n3, n4, n5, n6]
-    [min (e) (min (n1) (m.β 0 e)), min (n3) (min (m.β 1 e) (n2)), min (m.β 2 e) (min (n4) (m.β 0 (m.β 2 e))), min (n6) (min (m.β 1 (m.β 2 e)) (n5))]
-    (fun d _ => hu' d) (fun y hy => ⟨fr 1 y hy, fr 0 y hy⟩) ?_ ?_ ?_ ?_ ?_ ?_
-  · simp at cnt; omega
-  · intro y hy v hv
+  have hcl : ∀ y, y ∈ [e, m.β 2 e, m.β 1 e, m.β 0 e, m.β 1 (m.β 2 e), m.β 0 (m.β 2 e), n1, n2, n3, n4, n5, n6] →
+      ∀ x, x ∈ g2 m .face y →
+        x = 0 ∨ x ∈ [e, m.β 2 e, m.β 1 e, m.β 0 e, m.β 1 (m.β 2 e), m.β 0 (m.β 2 e), n1, n2, n3, n4, n5, n6] := by
+    intro y hy v hv
     simp only [List.mem_cons, List.mem_nil_iff, or_false] at hy
     simp only [g2, List.mem_cons, List.mem_nil_iff, or_false] at hv
     rcases hy with rfl | rfl | rfl | rfl | rfl | rfl | rfl | rfl | rfl | rfl | rfl | rfl <;> rcases hv with rfl | rfl <;>
       simp [htl, htr, p3', q3', i1, i2, i4, i5, s1.β 1 (by omega), s1.β 0 (by omega), s2.β 1 (by omega), s2.β 0 (by omega),
         s3.β 1 (by omega), s3.β 0 (by omega), s4.β 1 (by omega), s4.β 0 (by omega), s5.β 1 (by omega), s5.β 0 (by omega),
         s6.β 1 (by omega), s6.β 0 (by omega)]
-  · intro y hy v hv
+  have hcl' : ∀ y, y ∈ [e, m.β 2 e, m.β 1 e, m.β 0 e, m.β 1 (m.β 2 e), m.β 0 (m.β 2 e), n1, n2, n3, n4, n5, n6] →
+      ∀ x, x ∈ g2 m' .face y →
+        x = 0 ∨ x ∈ [e, m.β 2 e, m.β 1 e, m.β 0 e, m.β 1 (m.β 2 e), m.β 0 (m.β 2 e), n1, n2, n3, n4, n5, n6] := by
+    intro y hy v hv
     simp only [List.mem_cons, List.mem_nil_iff, or_false] at hy
     simp only [g2, List.mem_cons, List.mem_nil_iff, or_false] at hv
     rcases hy with rfl | rfl | rfl | rfl | rfl | rfl | rfl | rfl | rfl | rfl | rfl | rfl <;> rcases hv with rfl | rfl <;>
       simp [p1, p2, p3, p4, p5, p6, p7, p8, p9, p10, p11, p12, r1, r2, r3, r4, r5, r6, r7, r8, r9, r10, r11, r12]
+  have cnt := iterFaces_count hwf hw' hn' [e, m.β 2 e, m.β 1 e, m.β 0 e, m.β 1 (m.β 2 e), m.β 0 (m.β 2 e), n1, n2, n3, n4, n5, n6]
+    [min (e) (min (m.β 1 e) (m.β 0 e)), min (m.β 2 e) (min (m.β 1 (m.β 2 e)) (m.β 0 (m.β 2 e))), n1, n2, n3, n4, n5, n6]
+    [min (e) (min (n1) (m.β 0 e)), min (n3) (min (m.β 1 e) (n2)), min (m.β 2 e) (min (n4) (m.β 0 (m.β 2 e))), min (n6) (min (m.β 1 (m.β 2 e)) (n5))]
+    (fun d _ => hu' d) (fun y hy => ⟨fr 1 y hy, fr 0 y hy⟩) hcl hcl' ?_ ?_ ?_ ?_
+  · refine ⟨hw', ⟨w1, w4, w7, w10⟩, ⟨w2.trans w1.symm, w3.trans w1.symm, w5.trans w4.symm, w6.trans w4.symm,
+      w8.trans w7.symm, w9.trans w7.symm, w11.trans w10.symm, w12.trans w10.symm⟩, ?_, ?_⟩
+    · intro d hd0 hdn hdM
+      exact cellId_frame hwf hw' hn' (pol := .face) trivial _
+        (by intro y hy; simp only [g2]; rw [fr 1 y hy, fr 0 y hy]) hcl hcl' hd0 hdn hdM
+    · simp at cnt; omega
   · have a1 := min3_ne q1 q4 q5 (Ne.symm q12) q23 q24 (Ne.symm q13) q31 q32
     have a2 := min3_ne1 q6 q25 q33
     have a3 := min3_ne1 q16 q40 q46
@@ -780,9 +805,6 @@ theorem reach_equiv_of_projection {g g' : Nat → List Nat} (π : Nat → Nat)
         by_cases hb0 : b = 0
         · subst hb0; exact absurd (h0' c hc) hq0
         · exact (ih hb0).trans (bwd b c hc hq0)
-
-/-- the vertex generator -/
-def vg (f : BF) (y : Nat) : List Nat := [f 1 (f 2 y), f 2 (f 0 y)]
 
 /-- projection of the darts after an outer cut onto the darts before: `nd2` joins the vertex of `b`, `nd3` that of `nd1` -/
 def piOuter (b nd1 nd2 nd3 : Nat) (y : Nat) : Nat := if y = nd2 then b else if y = nd3 then nd1 else y
@@ -1065,22 +1087,6 @@ theorem iterVertices_count {m m' : Map Val} (h : WF 3 m) (h' : WF 3 m') (hn : m'
       have r := (hreach x t (hfix x hxT) sp.1.1).2 r'
       exact old_ne x (π t) hxT x0 xn hπt r
 
-/-- β outside the table is the null dart -/
-theorem beta_oob {m : Map Val} (h : WF 3 m) {i d : Nat} (ho : ¬ (i < 3 ∧ d < m.n)) : m.β i d = 0 := by
-  unfold Map.β
-  by_cases hi : i < 3
-  · have hd : ¬ d < m.n := fun x => ho ⟨hi, x⟩
-    rw [rd_oob (rd m.b i) d (by rw [h.row i hi]; omega)]; rfl
-  · rw [rd_oob m.b i (by rw [h.rows]; omega)]
-    rw [rd_oob]; rfl
-    show (#[] : Array Nat).size ≤ d
-    simp
-
-theorem beta_zero {m : Map Val} (h : WF 3 m) (i : Nat) : m.β i 0 = 0 := by
-  by_cases hi : i < 3
-  · exact h.null i hi
-  · exact beta_oob h (fun hh => hi hh.1)
-
 theorem spare_beta {m : Map Val} (h : WF 3 m) {s : Nat} (hs : Spare m s) (i : Nat) : m.β i s = 0 := by
   by_cases hi : i < 3
   · exact hs.β i hi
@@ -1103,14 +1109,35 @@ theorem beta_ne_spare {m : Map Val} (h : WF 3 m) {s : Nat} (hs : Spare m s) (i y
       subst this; rw [h.null 2 (by omega)] at hh; exact s0 hh.symm
   · rw [beta_oob h ho] at hh; exact hs.1.1 hh.symm
 
+/-- the reachability equivalence of `reach_equiv_of_projection`, read on identifiers: outside `T` two darts have the same
+    vertex identifier after exactly when they had before -/
+theorem partition_kept {m m' : Map Val} (h : WF 3 m) (h' : WF 3 m') (hn : m'.n = m.n) (T : List Nat) (π : Nat → Nat)
+    (hfix : ∀ x, x ∉ T → π x = x)
+    (hreach : ∀ p q, π p = p → q ≠ 0 →
+      (Reach (g2 m .vertex) p q → Reach (g2 m' .vertex) p q) ∧
+      (Reach (g2 m' .vertex) p q → Reach (g2 m .vertex) p (π q))) :
+    ∀ p q, p ≠ 0 → p < m.n → q ≠ 0 → q < m.n → p ∉ T → q ∉ T →
+      (cellId m' .vertex p = cellId m' .vertex q ↔ cellId m .vertex p = cellId m .vertex q) := by
+  intro p q p0 pn q0 qn pT qT
+  rw [(C03_same_id_iff_same_cell h' (pol := .vertex) trivial p0 (by rw [hn]; exact pn) q0 (by rw [hn]; exact qn)).1,
+    (C03_same_id_iff_same_cell h (pol := .vertex) trivial p0 pn q0 qn).1]
+  have := hreach p q (hfix p pT) q0
+  constructor
+  · intro r; have r' := this.2 r; rw [hfix q qT] at r'; exact r'
+  · exact this.1
+
 /-- **C15 (1), vertices, outer cut**: `iter_vertices` counted the three spare darts as three vertices; after the call `nd2`
     belongs to the vertex of `β0 e`, `nd1` and `nd3` form the new vertex, and two old darts share a vertex after the call
     exactly when they did before: `#vertices' + 2 = #vertices` — the MESH gains one vertex -/
-theorem C15_cutOuter_vertex_count (cfg : Cfg Val) (m m' : Map Val) (e nd1 nd2 nd3 : Nat) (hwf : WF 3 m) (he : C01.InUse m e)
+theorem C15_cutOuter_vertices (cfg : Cfg Val) (m m' : Map Val) (e nd1 nd2 nd3 : Nat) (hwf : WF 3 m) (he : C01.InUse m e)
     (h : run (cutOuterEdge cfg m.n e nd1 nd2 nd3) m = (.ok (), m'))
     (htri : m.β 1 (m.β 1 e) = m.β 0 e) (hb : m.β 0 e ≠ 0) (hout : m.β 2 e = 0)
     (s1 : Spare m nd1) (s2 : Spare m nd2) (s3 : Spare m nd3)
     (hnd : [e, m.β 1 e, m.β 0 e, nd1, nd2, nd3].Nodup) :
+    cellId m' .vertex nd1 = min nd1 nd3 ∧ cellId m' .vertex nd3 = cellId m' .vertex nd1 ∧
+    cellId m' .vertex nd2 = cellId m' .vertex (m.β 0 e) ∧
+    (∀ p q, p ≠ 0 → p < m.n → q ≠ 0 → q < m.n → p ∉ [nd1, nd2, nd3] → q ∉ [nd1, nd2, nd3] →
+      (cellId m' .vertex p = cellId m' .vertex q ↔ cellId m .vertex p = cellId m .vertex q)) ∧
     (iterVertices2 m').length + 2 = (iterVertices2 m).length := by
   have hn := he.2.1
   have a0 : m.β 1 e ≠ 0 := fun hh => hb (by rw [← htri, hh]; exact hwf.null 1 (by omega))
@@ -1139,20 +1166,20 @@ theorem C15_cutOuter_vertex_count (cfg : Cfg Val) (m m' : Map Val) (e nd1 nd2 nd
   have n1' : nd1 < m'.n := by rw [hn']; exact s1.1.2.1
   have n2' : nd2 < m'.n := by rw [hn']; exact s2.1.2.1
   have n3' : nd3 < m'.n := by rw [hn']; exact s3.1.2.1
-  have c3 : cellId m' .vertex nd3 = cellId m' .vertex nd1 := by
-    refine (C03_same_id_iff_same_cell hw' (pol := .vertex) trivial s3.1.1 n3' s1.1.1 n1').1.2 ?_
-    refine (C03_same_id_iff_same_cell hw' (pol := .vertex) trivial s1.1.1 n1' s3.1.1 n3').1.1 ?_ |> fun r => reach_symm hw' (pol := .vertex) trivial n1' s3.1.1 r
-    exact (C03_same_id_iff_same_cell hw' (pol := .vertex) trivial s1.1.1 n1' s3.1.1 n3').1.2
-      (Reach.single (by simp [g2, u1, q3]))
+  have c3 : cellId m' .vertex nd3 = cellId m' .vertex nd1 :=
+    ((C03_same_id_iff_same_cell hw' (pol := .vertex) trivial s1.1.1 n1' s3.1.1 n3').1.2
+      (Reach.single (by simp [g2, u1, q3]))).symm
   have c2 : cellId m' .vertex nd2 = cellId m' .vertex (m.β 0 e) :=
     (C03_same_id_iff_same_cell hw' (pol := .vertex) trivial s2.1.1 n2' hb (by rw [hn']; exact hbn)).1.2
       (Reach.single (by simp [g2, u2, p2]))
+  have hfix : ∀ x, x ∉ [nd1, nd2, nd3] → piOuter (m.β 0 e) nd1 nd2 nd3 x = x := by
+    intro x hx; simp only [List.mem_cons, List.mem_nil_iff, not_or, or_false] at hx; unfold piOuter; simp [hx.2.1, hx.2.2]
   have cnt := iterVertices_count hwf hw' hn' hu' [nd1, nd2, nd3] [min nd1 nd3] (piOuter (m.β 0 e) nd1 nd2 nd3)
     (by intro t ht; simp only [List.mem_cons, List.mem_nil_iff, or_false] at ht; rcases ht with rfl | rfl | rfl <;> assumption)
-    (by simp [d13, d14, d15]) (by simp)
-    (by intro x hx; simp only [List.mem_cons, List.mem_nil_iff, not_or, or_false] at hx; unfold piOuter; simp [hx.2.1, hx.2.2])
+    (by simp [d13, d14, d15]) (by simp) hfix
     (fun p q hp hq => hreach p q hp hq) ?_ ?_
-  · simp at cnt; omega
+  · refine ⟨hv hout, c3, c2, partition_kept hwf hw' hn' _ _ hfix (fun p q hp hq => hreach p q hp hq), ?_⟩
+    simp at cnt; omega
   · intro t ht
     simp only [List.mem_cons, List.mem_nil_iff, or_false] at ht
     rcases ht with rfl | rfl | rfl
@@ -1173,62 +1200,6 @@ theorem C15_cutOuter_vertex_count (cfg : Cfg Val) (m m' : Map Val) (e nd1 nd2 nd
 
 Every non-null step of the vertex graph joins `β2 z` and `β1 z` for some dart `z` (the two darts leaving the end of `z`),
 in one direction or the other.  Comparing two maps then only needs the pairs of the darts whose images changed. -/
-
-/-- what the vertex graph needs from a well-formed β function -/
-structure BWF (f : BF) : Prop where
-  z : ∀ i, f i 0 = 0
-  inv2 : ∀ y, f 2 y ≠ 0 → f 2 (f 2 y) = y
-  inv10 : ∀ y, f 0 y ≠ 0 → f 1 (f 0 y) = y
-  inv01 : ∀ y, f 1 y ≠ 0 → f 0 (f 1 y) = y
-
-theorem bwf_of_wf {m : Map Val} (h : WF 3 m) : BWF m.β where
-  z := beta_zero h
-  inv2 := fun y hy => by
-    by_cases hyn : y < m.n
-    · exact (h.invol 2 (by omega) (by omega) y hyn hy).1
-    · exact absurd (beta_oob h (fun hh => hyn hh.2)) hy
-  inv10 := fun y hy => by
-    by_cases hyn : y < m.n
-    · exact h.inv10 y hyn hy
-    · exact absurd (beta_oob h (fun hh => hyn hh.2)) hy
-  inv01 := fun y hy => by
-    by_cases hyn : y < m.n
-    · exact h.inv01 y hyn hy
-    · exact absurd (beta_oob h (fun hh => hyn hh.2)) hy
-
-theorem step_pair {f : BF} (hf : BWF f) {y w : Nat} (hw : w ∈ vg f y) (hw0 : w ≠ 0) :
-    ∃ z, f 2 z ≠ 0 ∧ f 1 z ≠ 0 ∧ ((f 2 z = y ∧ f 1 z = w) ∨ (f 2 z = w ∧ f 1 z = y)) := by
-  simp only [vg, List.mem_cons, List.mem_nil_iff, or_false] at hw
-  rcases hw with rfl | rfl
-  · have h2 : f 2 y ≠ 0 := fun hh => hw0 (by rw [hh]; exact hf.z 1)
-    have y0 : y ≠ 0 := by intro hh; subst hh; exact h2 (hf.z 2)
-    exact ⟨f 2 y, by rw [hf.inv2 y h2]; exact y0, hw0, Or.inl ⟨hf.inv2 y h2, rfl⟩⟩
-  · have h0 : f 0 y ≠ 0 := fun hh => hw0 (by rw [hh]; exact hf.z 2)
-    have y0 : y ≠ 0 := by intro hh; subst hh; exact h0 (hf.z 0)
-    exact ⟨f 0 y, hw0, by rw [hf.inv10 y h0]; exact y0, Or.inr ⟨rfl, hf.inv10 y h0⟩⟩
-
-theorem pair_step {f : BF} (hf : BWF f) (z : Nat) (h2 : f 2 z ≠ 0) (h1 : f 1 z ≠ 0) :
-    f 1 z ∈ vg f (f 2 z) ∧ f 2 z ∈ vg f (f 1 z) := by
-  simp only [vg, List.mem_cons, List.mem_nil_iff, or_false]
-  exact ⟨Or.inl (by rw [hf.inv2 z h2]), Or.inr (by rw [hf.inv01 z h1])⟩
-
-/-- a pair, as a path: `β2 z = u`, `β1 z = v`, both non-null -/
-theorem pair_reach {f : BF} (hf : BWF f) (z : Nat) {u v : Nat} (e2 : f 2 z = u) (e1 : f 1 z = v) (u0 : u ≠ 0)
-    (v0 : v ≠ 0) : Reach (vg f) u v := by
-  subst e2; subst e1; exact Reach.single (pair_step hf z u0 v0).1
-
-theorem vg_symm {f : BF} (hf : BWF f) {u v : Nat} (h : Reach (vg f) u v) (hv0 : v ≠ 0) : Reach (vg f) v u := by
-  induction h with
-  | refl => exact .refl _
-  | tail hab hc ih =>
-      rename_i b c
-      obtain ⟨z, z2, z1, hz⟩ := step_pair hf hc hv0
-      have b0 : b ≠ 0 := by rcases hz with ⟨e, _⟩ | ⟨_, e⟩ <;> (rw [← e]; assumption)
-      have back : Reach (vg f) c b := by
-        rcases hz with ⟨e2, e1⟩ | ⟨e2, e1⟩
-        · rw [← e2, ← e1]; exact Reach.single (pair_step hf z z2 z1).2
-        · rw [← e2, ← e1]; exact Reach.single (pair_step hf z z2 z1).1
-      exact back.trans (ih b0)
 
 /-- the two step conditions of `reach_equiv_of_projection`, from the pairs -/
 theorem vertex_steps_of_pairs {f f' : BF} (hf : BWF f) (hf' : BWF f') (π : Nat → Nat)
@@ -1258,7 +1229,7 @@ def piInner (b d n1 n2 n3 n4 n5 n6 : Nat) (y : Nat) : Nat :=
     to the vertex of `β0 e`, `n5` to the vertex of `β0 (β2 e)`, the darts `n1, n3, n4, n6` form the new vertex, and two old
     darts share a vertex after the call exactly when they did before: `#vertices' + 5 = #vertices` — the MESH gains one
     vertex -/
-theorem C15_cutInner_vertex_count (cfg : Cfg Val) (m m' : Map Val) (e n1 n2 n3 n4 n5 n6 : Nat) (hwf : WF 3 m)
+theorem C15_cutInner_vertices (cfg : Cfg Val) (m m' : Map Val) (e n1 n2 n3 n4 n5 n6 : Nat) (hwf : WF 3 m)
     (he : C01.InUse m e)
     (h : run (cutInnerEdge cfg m.n e n1 n2 n3 n4 n5 n6) m = (.ok (), m'))
     (hr0 : m.β 2 e ≠ 0)
@@ -1266,7 +1237,14 @@ theorem C15_cutInner_vertex_count (cfg : Cfg Val) (m m' : Map Val) (e n1 n2 n3 n
     (htr : m.β 1 (m.β 1 (m.β 2 e)) = m.β 0 (m.β 2 e)) (hd : m.β 0 (m.β 2 e) ≠ 0)
     (hs : ∀ x, x ∈ [n1, n2, n3, n4, n5, n6] → Spare m x)
     (hnd : [e, m.β 2 e, m.β 1 e, m.β 0 e, m.β 1 (m.β 2 e), m.β 0 (m.β 2 e), n1, n2, n3, n4, n5, n6].Nodup) :
-    (iterVertices2 m').length + 5 = (iterVertices2 m).length := by
+    cellId m' .vertex n1 = min n1 (min n3 (min n4 n6)) ∧
+    (cellId m' .vertex n3 = cellId m' .vertex n1 ∧ cellId m' .vertex n4 = cellId m' .vertex n1 ∧
+      cellId m' .vertex n6 = cellId m' .vertex n1) ∧
+    cellId m' .vertex n2 = cellId m' .vertex (m.β 0 e) ∧ cellId m' .vertex n5 = cellId m' .vertex (m.β 0 (m.β 2 e)) ∧
+    (∀ p q, p ≠ 0 → p < m.n → q ≠ 0 → q < m.n → p ∉ [n1, n2, n3, n4, n5, n6] → q ∉ [n1, n2, n3, n4, n5, n6] →
+      (cellId m' .vertex p = cellId m' .vertex q ↔ cellId m .vertex p = cellId m .vertex q)) ∧
+    (iterVertices2 m').length + 5 = (iterVertices2 m).length ∧
+    (∀ x, x ∈ orb m' .vertex n1 ↔ x ∈ [n1, n3, n4, n6]) := by
   have hn := he.2.1
   have hr : m.β 2 e < m.n := hwf.range 2 (by omega) e hn
   have a0 : m.β 1 e ≠ 0 := fun hh => hb (by rw [← htl, hh]; exact hwf.null 1 (by omega))
@@ -1280,7 +1258,8 @@ theorem C15_cutInner_vertex_count (cfg : Cfg Val) (m m' : Map Val) (e n1 n2 n3 n
   have s4 := hs n4 (by simp); have s5 := hs n5 (by simp); have s6 := hs n6 (by simp)
   have hw' : WF 3 m' := wf_of_run_ok h
     (C15_cutInner_preserves_WF cfg m e n1 n2 n3 n4 n5 n6 hwf he hr0 ⟨a0, hb⟩ ⟨c0, hd⟩ hs q52 q64)
-  obtain ⟨⟨⟨p1, p2, p3⟩, ⟨p4, p5, p6⟩, ⟨p7, p8, p9⟩, ⟨p10, p11, p12⟩⟩, _,
+  obtain ⟨⟨⟨p1, p2, p3⟩, ⟨p4, p5, p6⟩, ⟨p7, p8, p9⟩, ⟨p10, p11, p12⟩⟩,
+    ⟨⟨r1, r2, r3⟩, ⟨r4, r5, r6⟩, ⟨r7, r8, r9⟩, ⟨r10, r11, r12⟩⟩,
     ⟨⟨u1, u2⟩, ⟨u3, u4⟩, ⟨u5, u6⟩, ⟨u7, u8⟩, u9⟩, fr, hn', hu⟩ :=
     C15_cutInner_topology cfg m m' e n1 n2 n3 n4 n5 n6 hwf hn h hr0 htl hb htr hd hnd
   have hu' : ∀ d, m'.unused d = m.unused d := fun d => by unfold Map.unused; rw [hu]
@@ -1378,7 +1357,36 @@ theorem C15_cutInner_vertex_count (cfg : Cfg Val) (m m' : Map Val) (e n1 n2 n3 n
     | true => exact absurd (C01.C01_unused_is_nobodys_image hwf i hi x hx hx') h0
   have cnt := iterVertices_count hwf hw' hn' hu' [n1, n2, n3, n4, n5, n6] [cellId m' .vertex n1] π hs
     (by simp [q1, Ne.symm q1, q2, Ne.symm q2, q3, Ne.symm q3, q4, Ne.symm q4, q5, Ne.symm q5, q6, Ne.symm q6, q7, Ne.symm q7, q8, Ne.symm q8, q9, Ne.symm q9, q10, Ne.symm q10, q11, Ne.symm q11, q12, Ne.symm q12, q13, Ne.symm q13, q14, Ne.symm q14, q15, Ne.symm q15, q16, Ne.symm q16, q17, Ne.symm q17, q18, Ne.symm q18, q19, Ne.symm q19, q20, Ne.symm q20, q21, Ne.symm q21, q22, Ne.symm q22, q23, Ne.symm q23, q24, Ne.symm q24, q25, Ne.symm q25, q26, Ne.symm q26, q27, Ne.symm q27, q28, Ne.symm q28, q29, Ne.symm q29, q30, Ne.symm q30, q31, Ne.symm q31, q32, Ne.symm q32, q33, Ne.symm q33, q34, Ne.symm q34, q35, Ne.symm q35, q36, Ne.symm q36, q37, Ne.symm q37, q38, Ne.symm q38, q39, Ne.symm q39, q40, Ne.symm q40, q41, Ne.symm q41, q42, Ne.symm q42, q43, Ne.symm q43, q44, Ne.symm q44, q45, Ne.symm q45, q46, Ne.symm q46, q47, Ne.symm q47, q48, Ne.symm q48, q49, Ne.symm q49, q50, Ne.symm q50, q51, Ne.symm q51, q52, Ne.symm q52, q53, Ne.symm q53, q54, Ne.symm q54, q55, Ne.symm q55, q56, Ne.symm q56, q57, Ne.symm q57, q58, Ne.symm q58, q59, Ne.symm q59, q60, Ne.symm q60, q61, Ne.symm q61, q62, Ne.symm q62, q63, Ne.symm q63, q64, Ne.symm q64, q65, Ne.symm q65, q66, Ne.symm q66]) (by simp) πfix (fun p q hp hq => hreach p q hp hq) ?_ ?_
-  · simp at cnt; omega
+  · have cid : cellId m' .vertex n1 = min n1 (min n3 (min n4 n6)) ∧
+        (∀ x, x ∈ orb m' .vertex n1 ↔ x ∈ [n1, n3, n4, n6]) := by
+      obtain ⟨hmem, hin, hle⟩ := cell_of_list hw' (pol := .vertex) trivial s1.1.1 (by rw [hn']; exact s1.1.2.1) [n1, n3, n4, n6]
+        (by simp [s1.1.1, s3.1.1, s4.1.1, s6.1.1])
+        (by
+          have a13 : Reach (g2 m' .vertex) n1 n3 := Reach.single (by simp [g2, u5, p6])
+          have a34 : Reach (g2 m' .vertex) n3 n4 := Reach.single (by simp [g2, u4, p7])
+          have a46 : Reach (g2 m' .vertex) n4 n6 := Reach.single (by simp [g2, u7, p12])
+          intro y hy; simp only [List.mem_cons, List.mem_nil_iff, or_false] at hy
+          rcases hy with rfl | rfl | rfl | rfl
+          · exact .refl _
+          · exact a13
+          · exact a13.trans a34
+          · exact (a13.trans a34).trans a46)
+        (by simp)
+        (by
+          intro y hy v hv
+          simp only [List.mem_cons, List.mem_nil_iff, or_false] at hy
+          simp only [g2, List.mem_cons, List.mem_nil_iff, or_false] at hv
+          rcases hy with rfl | rfl | rfl | rfl <;> rcases hv with rfl | rfl <;>
+            simp [u5, p6, r1, u1, u4, p7, r6, u6, u7, p12, r7, u3, u2, p1, r12, u8])
+      simp at hin
+      have h1 := hle n1 (by simp)
+      have h2 := hle n3 (by simp)
+      have h3 := hle n4 (by simp)
+      have h4 := hle n6 (by simp)
+      exact ⟨by omega, hmem⟩
+    refine ⟨cid.1, ⟨c13.symm, (c13.trans c34).symm, ((c13.trans c34).trans c46).symm⟩, c2b, c5d,
+      partition_kept hwf hw' hn' _ _ πfix (fun p q hp hq => hreach p q hp hq), ?_, cid.2⟩
+    simp at cnt; omega
   · intro t ht
     simp only [List.mem_cons, List.mem_nil_iff, or_false] at ht
     rcases ht with rfl | rfl | rfl | rfl | rfl | rfl
@@ -1392,5 +1400,1355 @@ theorem C15_cutInner_vertex_count (cfg : Cfg Val) (m m' : Map Val) (e n1 n2 n3 n
     simp only [List.mem_cons, List.mem_nil_iff, or_false] at hy
     subst hy
     exact ⟨n1, by simp, by rw [πn1]; simp, rfl⟩
+
+/-- **C15 (1), vertices, outer cut, the count**: `#vertices' + 2 = #vertices` where `iter_vertices` counted the three spare
+    darts as three vertices before: the MESH gains one vertex -/
+theorem C15_cutOuter_vertex_count (cfg : Cfg Val) (m m' : Map Val) (e nd1 nd2 nd3 : Nat) (hwf : WF 3 m) (he : C01.InUse m e)
+    (h : run (cutOuterEdge cfg m.n e nd1 nd2 nd3) m = (.ok (), m'))
+    (htri : m.β 1 (m.β 1 e) = m.β 0 e) (hb : m.β 0 e ≠ 0) (hout : m.β 2 e = 0)
+    (s1 : Spare m nd1) (s2 : Spare m nd2) (s3 : Spare m nd3)
+    (hnd : [e, m.β 1 e, m.β 0 e, nd1, nd2, nd3].Nodup) :
+    (iterVertices2 m').length + 2 = (iterVertices2 m).length :=
+  (C15_cutOuter_vertices cfg m m' e nd1 nd2 nd3 hwf he h htri hb hout s1 s2 s3 hnd).2.2.2.2
+
+/-- **C15 (1), vertices, inner cut, the count**: `#vertices' + 5 = #vertices` where `iter_vertices` counted the six spare
+    darts as six vertices before: the MESH gains one vertex -/
+theorem C15_cutInner_vertex_count (cfg : Cfg Val) (m m' : Map Val) (e n1 n2 n3 n4 n5 n6 : Nat) (hwf : WF 3 m)
+    (he : C01.InUse m e)
+    (h : run (cutInnerEdge cfg m.n e n1 n2 n3 n4 n5 n6) m = (.ok (), m'))
+    (hr0 : m.β 2 e ≠ 0)
+    (htl : m.β 1 (m.β 1 e) = m.β 0 e) (hb : m.β 0 e ≠ 0)
+    (htr : m.β 1 (m.β 1 (m.β 2 e)) = m.β 0 (m.β 2 e)) (hd : m.β 0 (m.β 2 e) ≠ 0)
+    (hs : ∀ x, x ∈ [n1, n2, n3, n4, n5, n6] → Spare m x)
+    (hnd : [e, m.β 2 e, m.β 1 e, m.β 0 e, m.β 1 (m.β 2 e), m.β 0 (m.β 2 e), n1, n2, n3, n4, n5, n6].Nodup) :
+    (iterVertices2 m').length + 5 = (iterVertices2 m).length :=
+  (C15_cutInner_vertices cfg m m' e n1 n2 n3 n4 n5 n6 hwf he h hr0 htl hb htr hd hs hnd).2.2.2.2.2.1
+
+/-! ### vertices after a swap -/
+
+/-- what the success of `swap_edge(e)` says about the input: the edge is interior, both faces are triangles; and the
+    result is well formed -/
+theorem swap_ok_facts (cfg : Cfg Val) (m m' : Map Val) (e : Nat) (hwf : WF 3 m) (he : C01.InUse m e)
+    (h : run (swapEdge cfg m.n e) m = (.ok (), m'))
+    (hb : m.β 0 e ≠ 0) (hd : m.β 0 (m.β 2 e) ≠ 0) :
+    m.β 2 e ≠ 0 ∧ m.β 1 (m.β 1 e) = m.β 0 e ∧ m.β 1 (m.β 1 (m.β 2 e)) = m.β 0 (m.β 2 e) ∧ WF 3 m' := by
+  have hn := he.2.1
+  have g := h
+  rw [C15_swap_guards cfg m.n e m (fun i d hi hd => (hwf.toSized.okβ i d).2 ⟨hi, hd⟩)
+    (fun i d hi hd => hwf.range i hi d hd) hn] at g
+  simp only [he.1, if_false] at g
+  have r0 : m.β 2 e ≠ 0 := by intro hh; simp [hh] at g
+  simp only [r0, if_false] at g
+  have gg : ¬ (m.β 1 (m.β 1 e) ≠ m.β 0 e ∨ m.β 1 (m.β 1 (m.β 2 e)) ≠ m.β 0 (m.β 2 e)) := by
+    intro hh; simp [hh] at g
+  have gl : m.β 1 (m.β 1 e) = m.β 0 e := by
+    by_cases hh : m.β 1 (m.β 1 e) = m.β 0 e
+    · exact hh
+    · exact absurd (Or.inl hh) gg
+  have gr : m.β 1 (m.β 1 (m.β 2 e)) = m.β 0 (m.β 2 e) := by
+    by_cases hh : m.β 1 (m.β 1 (m.β 2 e)) = m.β 0 (m.β 2 e)
+    · exact hh
+    · exact absurd (Or.inr hh) gg
+  have a0 : m.β 1 e ≠ 0 := fun hh => hb (by rw [← gl, hh]; exact hwf.null 1 (by omega))
+  have c0 : m.β 1 (m.β 2 e) ≠ 0 := fun hh => hd (by rw [← gr, hh]; exact hwf.null 1 (by omega))
+  exact ⟨r0, gl, gr, wf_of_run_ok h (C15_swap_preserves_WF cfg m e hwf he ⟨a0, hb⟩ (fun _ => ⟨c0, hd⟩))⟩
+
+/-- replace `e` by `x` and `r` by `y` -/
+def piSwap (e r x y : Nat) (z : Nat) : Nat := if z = e then x else if z = r then y else z
+
+/-- **C15 (3), swap, the vertices**: on ANY well-formed 2-map, after a successful `swap_edge(e)` (hypotheses of
+    `C15_swap_topology`, `r = β2 e`)
+    * `e` has left the vertex it shared with `β1 r` and now belongs to the vertex of `β0 e`; `r` has left the vertex it
+      shared with `β1 e` and now belongs to the vertex of `β0 r`;
+    * any two other darts share a vertex after the call exactly when they did before — so the four corners keep all their
+      other darts, two of them lose one dart, the two others gain one;
+    * `iter_vertices` has the same length. -/
+theorem C15_swap_cells (cfg : Cfg Val) (m m' : Map Val) (e : Nat) (hwf : WF 3 m) (he : C01.InUse m e)
+    (h : run (swapEdge cfg m.n e) m = (.ok (), m'))
+    (hb : m.β 0 e ≠ 0) (hd : m.β 0 (m.β 2 e) ≠ 0)
+    (hnd : [e, m.β 2 e, m.β 1 e, m.β 0 e, m.β 1 (m.β 2 e), m.β 0 (m.β 2 e)].Nodup) :
+    (cellId m .vertex e = cellId m .vertex (m.β 1 (m.β 2 e)) ∧ cellId m .vertex (m.β 2 e) = cellId m .vertex (m.β 1 e)) ∧
+    (cellId m' .vertex e = cellId m' .vertex (m.β 0 e) ∧
+      cellId m' .vertex (m.β 2 e) = cellId m' .vertex (m.β 0 (m.β 2 e))) ∧
+    (∀ p q, p ≠ 0 → p < m.n → q ≠ 0 → q < m.n → p ∉ [e, m.β 2 e] → q ∉ [e, m.β 2 e] →
+      (cellId m' .vertex p = cellId m' .vertex q ↔ cellId m .vertex p = cellId m .vertex q)) ∧
+    (iterVertices2 m').length = (iterVertices2 m).length := by
+  have hn := he.2.1
+  obtain ⟨⟨p1, p2, p3⟩, ⟨q1, q2, q3⟩, _, _, u, fr, hn', hu⟩ := C15_swap_topology cfg m m' e hwf hn h hb hd hnd
+  obtain ⟨r0, gl, gr, hw'⟩ := swap_ok_facts cfg m m' e hwf he h hb hd
+  have hu' : ∀ d, m'.unused d = m.unused d := fun d => by unfold Map.unused; rw [hu]
+  have hr : m.β 2 e < m.n := hwf.range 2 (by omega) e hn
+  have a0 : m.β 1 e ≠ 0 := fun hh => hb (by rw [← gl, hh]; exact hwf.null 1 (by omega))
+  have c0 : m.β 1 (m.β 2 e) ≠ 0 := fun hh => hd (by rw [← gr, hh]; exact hwf.null 1 (by omega))
+  have ha : m.β 1 e < m.n := hwf.range 1 (by omega) e hn
+  have hc : m.β 1 (m.β 2 e) < m.n := hwf.range 1 (by omega) _ hr
+  have hbn : m.β 0 e < m.n := hwf.range 0 (by omega) e hn
+  have hdn : m.β 0 (m.β 2 e) < m.n := hwf.range 0 (by omega) _ hr
+  have p3' := hwf.inv10 e hn hb
+  have q3' := hwf.inv10 _ hr hd
+  have er := (hwf.invol 2 (by omega) (by omega) e hn r0).1
+  have hnd' := hnd
+  simp only [List.nodup_cons, List.mem_cons, List.mem_nil_iff, not_or, or_false, List.nodup_nil, and_true] at hnd'
+  obtain ⟨⟨d1, d2, d3, d4, d5⟩, ⟨d6, d7, d8, d9⟩, ⟨d10, d11, d12⟩, ⟨d13, d14⟩, d15, _⟩ := hnd'
+  have hf := bwf_of_wf hwf
+  have hf' := bwf_of_wf hw'
+  -- images that cannot be `e` or `r`
+  have b2ne : ∀ x, x ≠ e → x ≠ m.β 2 e → m.β 2 x ≠ e ∧ m.β 2 x ≠ m.β 2 e := by
+    intro x xe xr
+    constructor
+    · intro hh
+      have := hf.inv2 x (by rw [hh]; exact he.1); rw [hh] at this; exact xr this.symm
+    · intro hh
+      have := hf.inv2 x (by rw [hh]; exact r0); rw [hh, er] at this; exact xe this.symm
+  have b1ne : ∀ z, z ≠ m.β 0 e → z ≠ m.β 0 (m.β 2 e) → m.β 1 z ≠ e ∧ m.β 1 z ≠ m.β 2 e := by
+    intro z zb zd
+    constructor
+    · intro hh
+      have := hf.inv01 z (by rw [hh]; exact he.1); rw [hh] at this; exact zb this.symm
+    · intro hh
+      have := hf.inv01 z (by rw [hh]; exact r0); rw [hh] at this; exact zd this.symm
+  obtain ⟨π, hπ⟩ : ∃ π, π = piSwap e (m.β 2 e) (m.β 0 e) (m.β 0 (m.β 2 e)) := ⟨_, rfl⟩
+  obtain ⟨ρ, hρ⟩ : ∃ ρ, ρ = piSwap e (m.β 2 e) (m.β 1 (m.β 2 e)) (m.β 1 e) := ⟨_, rfl⟩
+  have πe : π e = m.β 0 e := by rw [hπ]; simp [piSwap]
+  have πr : π (m.β 2 e) = m.β 0 (m.β 2 e) := by rw [hπ]; simp [piSwap, Ne.symm d1]
+  have πx : ∀ x, x ≠ e → x ≠ m.β 2 e → π x = x := by intro x x1 x2; rw [hπ]; simp [piSwap, x1, x2]
+  have ρe : ρ e = m.β 1 (m.β 2 e) := by rw [hρ]; simp [piSwap]
+  have ρr : ρ (m.β 2 e) = m.β 1 e := by rw [hρ]; simp [piSwap, Ne.symm d1]
+  have ρx : ∀ x, x ≠ e → x ≠ m.β 2 e → ρ x = x := by intro x x1 x2; rw [hρ]; simp [piSwap, x1, x2]
+  have πne : ∀ y, y ≠ 0 → π y ≠ 0 := by
+    intro y hy
+    by_cases y1 : y = e
+    · rw [y1, πe]; exact hb
+    · by_cases y2 : y = m.β 2 e
+      · rw [y2, πr]; exact hd
+      · rw [πx y y1 y2]; exact hy
+  have ρne : ∀ y, y ≠ 0 → ρ y ≠ 0 := by
+    intro y hy
+    by_cases y1 : y = e
+    · rw [y1, ρe]; exact c0
+    · by_cases y2 : y = m.β 2 e
+      · rw [y2, ρr]; exact a0
+      · rw [ρx y y1 y2]; exact hy
+  have ua := b2ne (m.β 1 e) (Ne.symm d2) (Ne.symm d6)
+  have ub := b2ne (m.β 0 e) (Ne.symm d3) (Ne.symm d7)
+  have uc := b2ne (m.β 1 (m.β 2 e)) (Ne.symm d4) (Ne.symm d8)
+  have ud := b2ne (m.β 0 (m.β 2 e)) (Ne.symm d5) (Ne.symm d9)
+  -- old pairs, as paths of the new map
+  have P1 : ∀ z, m.β 2 z ≠ 0 → m.β 1 z ≠ 0 → Reach (vg m'.β) (ρ (m.β 2 z)) (ρ (m.β 1 z)) := by
+    intro z z2 z1
+    by_cases hz : z ∈ [e, m.β 2 e, m.β 1 e, m.β 0 e, m.β 1 (m.β 2 e), m.β 0 (m.β 2 e)]
+    · simp only [List.mem_cons, List.mem_nil_iff, or_false] at hz
+      rcases hz with hz | hz | hz | hz | hz | hz <;> subst hz
+      · rw [ρr, ρx _ (Ne.symm d2) (Ne.symm d6)]; exact .refl _
+      · rw [er, ρe, ρx _ (Ne.symm d4) (Ne.symm d8)]; exact .refl _
+      · rw [gl, ρx _ ua.1 ua.2, ρx _ (Ne.symm d3) (Ne.symm d7)]
+        exact (pair_reach hf' (m.β 1 e) (u _) p3 z2 he.1).trans
+          (pair_reach hf' (m.β 2 e) ((u _).trans er) q1 he.1 hb)
+      · rw [p3', ρx _ ub.1 ub.2, ρe]
+        exact pair_reach hf' (m.β 0 e) (u _) q2 z2 c0
+      · rw [gr, ρx _ uc.1 uc.2, ρx _ (Ne.symm d5) (Ne.symm d9)]
+        exact (pair_reach hf' (m.β 1 (m.β 2 e)) (u _) q3 z2 r0).trans (pair_reach hf' e (u _) p1 r0 hd)
+      · rw [q3', ρx _ ud.1 ud.2, ρr]
+        exact pair_reach hf' (m.β 0 (m.β 2 e)) (u _) p2 z2 a0
+    · simp only [List.mem_cons, List.mem_nil_iff, not_or, or_false] at hz
+      have k2 := b2ne z hz.1 hz.2.1
+      have k1 := b1ne z hz.2.2.2.1 hz.2.2.2.2.2
+      rw [ρx _ k2.1 k2.2, ρx _ k1.1 k1.2]
+      exact pair_reach hf' z (u z) (fr 1 z (by simp [hz])) z2 z1
+  -- new pairs, as paths of the old map
+  have P2 : ∀ z, m'.β 2 z ≠ 0 → m'.β 1 z ≠ 0 → Reach (vg m.β) (π (m'.β 2 z)) (π (m'.β 1 z)) := by
+    intro z z2 z1
+    rw [u z] at z2 ⊢
+    by_cases hz : z ∈ [e, m.β 2 e, m.β 1 e, m.β 0 e, m.β 1 (m.β 2 e), m.β 0 (m.β 2 e)]
+    · simp only [List.mem_cons, List.mem_nil_iff, or_false] at hz
+      rcases hz with hz | hz | hz | hz | hz | hz <;> subst hz
+      · rw [p1, πr, πx _ (Ne.symm d5) (Ne.symm d9)]; exact .refl _
+      · rw [er, q1, πe, πx _ (Ne.symm d3) (Ne.symm d7)]; exact .refl _
+      · rw [p3, πe, πx _ ua.1 ua.2]; exact pair_reach hf (m.β 1 e) rfl gl z2 hb
+      · rw [q2, πx _ ub.1 ub.2, πx _ (Ne.symm d4) (Ne.symm d8)]
+        exact (pair_reach hf (m.β 0 e) rfl p3' z2 he.1).trans (pair_reach hf (m.β 2 e) er rfl he.1 c0)
+      · rw [q3, πr, πx _ uc.1 uc.2]; exact pair_reach hf (m.β 1 (m.β 2 e)) rfl gr z2 hd
+      · rw [p2, πx _ ud.1 ud.2, πx _ (Ne.symm d2) (Ne.symm d6)]
+        exact (pair_reach hf (m.β 0 (m.β 2 e)) rfl q3' z2 r0).trans (pair_reach hf e rfl rfl r0 a0)
+    · simp only [List.mem_cons, List.mem_nil_iff, not_or, or_false] at hz
+      have e1 := fr 1 z (by simp [hz])
+      rw [e1] at z1 ⊢
+      have k2 := b2ne z hz.1 hz.2.1
+      have k1 := b1ne z hz.2.2.2.1 hz.2.2.2.2.2
+      rw [πx _ k2.1 k2.2, πx _ k1.1 k1.2]
+      exact pair_reach hf z rfl rfl z2 z1
+  have toOld : ∀ p q, q ≠ 0 → Reach (g2 m' .vertex) p q → Reach (g2 m .vertex) (π p) (π q) :=
+    fun p q q0 r => reach_of_pairs hf hf' π πne P2 r q0
+  have toNew : ∀ p q, q ≠ 0 → Reach (g2 m .vertex) p q → Reach (g2 m' .vertex) (ρ p) (ρ q) :=
+    fun p q q0 r => reach_of_pairs hf' hf ρ ρne P1 r q0
+  have sameN : ∀ x y, x ≠ 0 → x < m.n → y ≠ 0 → y < m.n →
+      (cellId m' .vertex x = cellId m' .vertex y ↔ Reach (g2 m' .vertex) x y) := fun x y x0 xn y0 yn =>
+    (C03_same_id_iff_same_cell hw' (pol := .vertex) trivial x0 (by rw [hn']; exact xn) y0 (by rw [hn']; exact yn)).1
+  have sameO : ∀ x y, x ≠ 0 → x < m.n → y ≠ 0 → y < m.n →
+      (cellId m .vertex x = cellId m .vertex y ↔ Reach (g2 m .vertex) x y) := fun x y x0 xn y0 yn =>
+    (C03_same_id_iff_same_cell hwf (pol := .vertex) trivial x0 xn y0 yn).1
+  -- the four memberships
+  have oe : Reach (g2 m .vertex) e (m.β 1 (m.β 2 e)) := pair_reach hf (m.β 2 e) er rfl he.1 c0
+  have or' : Reach (g2 m .vertex) (m.β 2 e) (m.β 1 e) := pair_reach hf e rfl rfl r0 a0
+  have ne' : Reach (g2 m' .vertex) e (m.β 0 e) := pair_reach hf' (m.β 2 e) ((u _).trans er) q1 he.1 hb
+  have nr : Reach (g2 m' .vertex) (m.β 2 e) (m.β 0 (m.β 2 e)) := pair_reach hf' e (u _) p1 r0 hd
+  have part : ∀ p q, p ≠ 0 → p < m.n → q ≠ 0 → q < m.n → p ∉ [e, m.β 2 e] → q ∉ [e, m.β 2 e] →
+      (Reach (g2 m' .vertex) p q ↔ Reach (g2 m .vertex) p q) := by
+    intro p q p0 pn q0 qn pT qT
+    simp only [List.mem_cons, List.mem_nil_iff, not_or, or_false] at pT qT
+    constructor
+    · intro r; have := toOld p q q0 r; rw [πx p pT.1 pT.2, πx q qT.1 qT.2] at this; exact this
+    · intro r; have := toNew p q q0 r; rw [ρx p pT.1 pT.2, ρx q qT.1 qT.2] at this; exact this
+  refine ⟨⟨(sameO _ _ he.1 hn c0 hc).2 oe, (sameO _ _ r0 hr a0 ha).2 or'⟩,
+    ⟨(sameN _ _ he.1 hn hb hbn).2 ne', (sameN _ _ r0 hr hd hdn).2 nr⟩, ?_, ?_⟩
+  · intro p q p0 pn q0 qn pT qT
+    rw [sameN p q p0 pn q0 qn, sameO p q p0 pn q0 qn]
+    exact part p q p0 pn q0 qn pT qT
+  · -- the count
+    have nodup : ∀ mm : Map Val, (iterVertices2 mm).Nodup := fun mm =>
+      ((C03_iter_sorted mm).1).imp (fun hab => Nat.ne_of_lt hab)
+    have inuse : ∀ i x, i < 3 → x < m.n → m.β i x ≠ 0 → m.unused (m.β i x) = false := by
+      intro i x hi hx h0
+      cases hx' : m.unused (m.β i x) with
+      | false => rfl
+      | true => exact absurd (C01.C01_unused_is_nobodys_image hwf i hi x hx hx') h0
+    -- `ρ x`: a dart of the old vertex of `x` which is neither `e` nor `r`
+    have ρok : ∀ x, x ≠ 0 → x < m.n → m.unused x = false →
+        ρ x ≠ 0 ∧ ρ x < m.n ∧ m.unused (ρ x) = false ∧ ρ x ∉ [e, m.β 2 e] ∧ Reach (g2 m .vertex) (ρ x) x := by
+      intro x x0 xn xu
+      by_cases x1 : x = e
+      · rw [x1, ρe]
+        exact ⟨c0, hc, inuse 1 _ (by omega) hr c0, by simp [Ne.symm d4, Ne.symm d8],
+          reach_symm hwf (pol := .vertex) trivial hn c0 oe⟩
+      · by_cases x2 : x = m.β 2 e
+        · rw [x2, ρr]
+          exact ⟨a0, ha, inuse 1 _ (by omega) hn a0, by simp [Ne.symm d2, Ne.symm d6],
+            reach_symm hwf (pol := .vertex) trivial hr a0 or'⟩
+        · rw [ρx x x1 x2]; exact ⟨x0, xn, xu, by simp [x1, x2], .refl _⟩
+    have πok : ∀ x, x ≠ 0 → x < m.n → m.unused x = false →
+        π x ≠ 0 ∧ π x < m.n ∧ m.unused (π x) = false ∧ π x ∉ [e, m.β 2 e] ∧ Reach (g2 m' .vertex) x (π x) := by
+      intro x x0 xn xu
+      by_cases x1 : x = e
+      · rw [x1, πe]
+        exact ⟨hb, hbn, inuse 0 _ (by omega) hn hb, by simp [Ne.symm d3, Ne.symm d7], ne'⟩
+      · by_cases x2 : x = m.β 2 e
+        · rw [x2, πr]
+          exact ⟨hd, hdn, inuse 0 _ (by omega) hr hd, by simp [Ne.symm d5, Ne.symm d9], nr⟩
+        · rw [πx x x1 x2]; exact ⟨x0, xn, xu, by simp [x1, x2], .refl _⟩
+    have oldid : ∀ a, a ∈ iterVertices2 m → a ≠ 0 ∧ a < m.n ∧ m.unused a = false ∧ cellId m .vertex a = a := by
+      intro a ha
+      obtain ⟨d, hd0, hd, hdu, rfl⟩ := (C03_iterVertices2_mem hwf a).1 ha
+      have f := vid_facts hwf hd0 hd hdu
+      exact ⟨f.1, f.2.1, f.2.2.1, f.2.2.2.2.2⟩
+    have cnt := length_via_bijection (N := []) (N' := []) (nodup m) (nodup m') (fun x => cellId m' .vertex (ρ x))
+      (by simp) (by simp) (by simp) (by simp) ?_ ?_
+    · simpa using cnt
+    · intro a b ha _ hb' _ hab
+      obtain ⟨a0', an, au, ai⟩ := oldid a ha
+      obtain ⟨b0', bn, bu, bi⟩ := oldid b hb'
+      obtain ⟨ra0, ran, _, raT, rar⟩ := ρok a a0' an au
+      obtain ⟨rb0, rbn, _, rbT, rbr⟩ := ρok b b0' bn bu
+      have r' := (sameN _ _ ra0 ran rb0 rbn).1 hab
+      have r := (part _ _ ra0 ran rb0 rbn raT rbT).1 r'
+      have rab : Reach (g2 m .vertex) a b :=
+        ((reach_symm hwf (pol := .vertex) trivial ran a0' rar).trans r).trans rbr
+      have := (sameO a b a0' an b0' bn).2 rab
+      rw [ai, bi] at this
+      exact this
+    · intro y
+      simp only [List.not_mem_nil, not_false_eq_true, and_true, true_and]
+      constructor
+      · intro hy
+        obtain ⟨d, hd0, hdn', hdu, rfl⟩ := (C03_iterVertices2_mem hw' y).1 hy
+        rw [hn'] at hdn'
+        rw [hu'] at hdu
+        obtain ⟨pd0, pdn, pdu, pdT, pdr⟩ := πok d hd0 hdn' hdu
+        have f := vid_facts hwf pd0 pdn pdu
+        obtain ⟨rx0, rxn, _, rxT, rxr⟩ := ρok _ f.1 f.2.1 f.2.2.1
+        refine ⟨cellId m .vertex (π d), (C03_iterVertices2_mem hwf _).2 ⟨π d, pd0, pdn, pdu, rfl⟩, ?_⟩
+        have r1 : Reach (g2 m .vertex) (ρ (cellId m .vertex (π d))) (π d) := rxr.trans f.2.2.2.2.1
+        have r2 := (part _ _ rx0 rxn pd0 pdn rxT pdT).2 r1
+        rw [(sameN _ _ rx0 rxn pd0 pdn).2 r2]
+        exact ((sameN _ _ hd0 hdn' pd0 pdn).2 pdr).symm
+      · rintro ⟨x, hx, rfl⟩
+        obtain ⟨x0, xn, xu, _⟩ := oldid x hx
+        obtain ⟨rx0, rxn, rxu, _, _⟩ := ρok x x0 xn xu
+        exact (C03_iterVertices2_mem hw' _).2 ⟨ρ x, rx0, by rw [hn']; exact rxn, by rw [hu']; exact rxu, rfl⟩
+
+/-- **C15 (1), faces, inner cut, the count** -/
+theorem C15_cutInner_face_count (cfg : Cfg Val) (m m' : Map Val) (e n1 n2 n3 n4 n5 n6 : Nat) (hwf : WF 3 m)
+    (he : C01.InUse m e)
+    (h : run (cutInnerEdge cfg m.n e n1 n2 n3 n4 n5 n6) m = (.ok (), m'))
+    (hr0 : m.β 2 e ≠ 0)
+    (htl : m.β 1 (m.β 1 e) = m.β 0 e) (hb : m.β 0 e ≠ 0)
+    (htr : m.β 1 (m.β 1 (m.β 2 e)) = m.β 0 (m.β 2 e)) (hd : m.β 0 (m.β 2 e) ≠ 0)
+    (hs : ∀ x, x ∈ [n1, n2, n3, n4, n5, n6] → Spare m x)
+    (hnd : [e, m.β 2 e, m.β 1 e, m.β 0 e, m.β 1 (m.β 2 e), m.β 0 (m.β 2 e), n1, n2, n3, n4, n5, n6].Nodup) :
+    (iterFaces2 m').length + 4 = (iterFaces2 m).length :=
+  (C15_cutInner_faces cfg m m' e n1 n2 n3 n4 n5 n6 hwf he h hr0 htl hb htr hd hs hnd).2.2.2.2
+
+/-- **C15 (2), inner cut, faces and vertices together** (`C15_cutInner_faces`, `C15_cutInner_vertices`): the four new faces
+    with their identifiers, the new vertex `{n1, n3, n4, n6}` with identifier the smallest of the four, `n2` in the vertex
+    of `β0 e`, `n5` in the vertex of `β0 (β2 e)`, every other face and the vertex partition of the old darts unchanged -/
+theorem C15_cutInner_cells (cfg : Cfg Val) (m m' : Map Val) (e n1 n2 n3 n4 n5 n6 : Nat) (hwf : WF 3 m)
+    (he : C01.InUse m e)
+    (h : run (cutInnerEdge cfg m.n e n1 n2 n3 n4 n5 n6) m = (.ok (), m'))
+    (hr0 : m.β 2 e ≠ 0)
+    (htl : m.β 1 (m.β 1 e) = m.β 0 e) (hb : m.β 0 e ≠ 0)
+    (htr : m.β 1 (m.β 1 (m.β 2 e)) = m.β 0 (m.β 2 e)) (hd : m.β 0 (m.β 2 e) ≠ 0)
+    (hs : ∀ x, x ∈ [n1, n2, n3, n4, n5, n6] → Spare m x)
+    (hnd : [e, m.β 2 e, m.β 1 e, m.β 0 e, m.β 1 (m.β 2 e), m.β 0 (m.β 2 e), n1, n2, n3, n4, n5, n6].Nodup) :
+    WF 3 m' ∧
+    (cellId m' .face e = min e (min n1 (m.β 0 e)) ∧ cellId m' .face n3 = min n3 (min (m.β 1 e) n2) ∧
+      cellId m' .face (m.β 2 e) = min (m.β 2 e) (min n4 (m.β 0 (m.β 2 e))) ∧
+      cellId m' .face n6 = min n6 (min (m.β 1 (m.β 2 e)) n5)) ∧
+    (∀ d, d ≠ 0 → d < m.n →
+      d ∉ [e, m.β 2 e, m.β 1 e, m.β 0 e, m.β 1 (m.β 2 e), m.β 0 (m.β 2 e), n1, n2, n3, n4, n5, n6] →
+      (∀ x, x ∈ orb m' .face d ↔ x ∈ orb m .face d) ∧ cellId m' .face d = cellId m .face d) ∧
+    cellId m' .vertex n1 = min n1 (min n3 (min n4 n6)) ∧
+    (cellId m' .vertex n3 = cellId m' .vertex n1 ∧ cellId m' .vertex n4 = cellId m' .vertex n1 ∧
+      cellId m' .vertex n6 = cellId m' .vertex n1) ∧
+    cellId m' .vertex n2 = cellId m' .vertex (m.β 0 e) ∧ cellId m' .vertex n5 = cellId m' .vertex (m.β 0 (m.β 2 e)) ∧
+    (∀ p q, p ≠ 0 → p < m.n → q ≠ 0 → q < m.n → p ∉ [n1, n2, n3, n4, n5, n6] → q ∉ [n1, n2, n3, n4, n5, n6] →
+      (cellId m' .vertex p = cellId m' .vertex q ↔ cellId m .vertex p = cellId m .vertex q)) := by
+  obtain ⟨a1, a2, _, a4, _⟩ := C15_cutInner_faces cfg m m' e n1 n2 n3 n4 n5 n6 hwf he h hr0 htl hb htr hd hs hnd
+  obtain ⟨b1, b2, b3, b4, b5, _⟩ := C15_cutInner_vertices cfg m m' e n1 n2 n3 n4 n5 n6 hwf he h hr0 htl hb htr hd hs hnd
+  exact ⟨a1, a2, a4, b1, b2, b3, b4, b5⟩
+
+/-- **C15 (1), swap, the three counts**: `swap_edge` keeps the numbers of vertices, edges and faces the iterators yield -/
+theorem C15_swap_counts (cfg : Cfg Val) (m m' : Map Val) (e : Nat) (hwf : WF 3 m) (he : C01.InUse m e)
+    (h : run (swapEdge cfg m.n e) m = (.ok (), m'))
+    (hb : m.β 0 e ≠ 0) (hd : m.β 0 (m.β 2 e) ≠ 0)
+    (hnd : [e, m.β 2 e, m.β 1 e, m.β 0 e, m.β 1 (m.β 2 e), m.β 0 (m.β 2 e)].Nodup) :
+    (iterVertices2 m').length = (iterVertices2 m).length ∧ (iterEdges2 m').length = (iterEdges2 m).length ∧
+    (iterFaces2 m').length = (iterFaces2 m).length := by
+  obtain ⟨_, _, _, _, u, _, hn', hu⟩ := C15_swap_topology cfg m m' e hwf he.2.1 h hb hd hnd
+  obtain ⟨r0, gl, gr, _⟩ := swap_ok_facts cfg m m' e hwf he h hb hd
+  have a0 : m.β 1 e ≠ 0 := fun hh => hb (by rw [← gl, hh]; exact hwf.null 1 (by omega))
+  have c0 : m.β 1 (m.β 2 e) ≠ 0 := fun hh => hd (by rw [← gr, hh]; exact hwf.null 1 (by omega))
+  exact ⟨(C15_swap_cells cfg m m' e hwf he h hb hd hnd).2.2.2,
+    C15_swap_edge_count cfg m m' e hwf he h ⟨a0, hb⟩ (fun _ => ⟨c0, hd⟩) u hn' hu,
+    C15_swap_face_count cfg m m' e hwf he h hb hd hnd⟩
+
+
+/-! ## (3) swap: where the four corner values go
+
+The values are followed at dart level (`vval`, Lemmas/RemeshValues.lean).  The six unsews change no value; each 1-sew
+merges two vertices.  Which darts belong to the merged vertex is only needed up to the FINAL vertex partition
+(`C15_swap_cells`): the sews only add connections, so darts of different final vertices never interact. -/
+
+/-- a point value -/
+def IsPt (v : Val) : Prop := ∃ x y z, v = .pt x y z
+
+/-- the average the vertex law computes -/
+def midV (a b : Val) : Val :=
+  match a, b with
+  | .pt x y z, .pt x' y' z' => .pt ((x + x') / 2) ((y + y') / 2) ((z + z') / 2)
+  | a, _ => a
+
+theorem midV_pt {a b : Val} (ha : IsPt a) (hb : IsPt b) : IsPt (midV a b) := by
+  obtain ⟨x, y, z, rfl⟩ := ha; obtain ⟨x', y', z', rfl⟩ := hb; exact ⟨_, _, _, rfl⟩
+
+theorem midV_self {a : Val} (ha : IsPt a) : midV a a = a := by
+  obtain ⟨x, y, z, rfl⟩ := ha
+  simp only [midV]
+  congr 1 <;> ring
+
+theorem midV_comm {a b : Val} (ha : IsPt a) (hb : IsPt b) : midV a b = midV b a := by
+  obtain ⟨x, y, z, rfl⟩ := ha; obtain ⟨x', y', z', rfl⟩ := hb
+  simp only [midV]
+  congr 1 <;> ring
+
+theorem merge_pts {a b : Val} (ha : IsPt a) (hb : IsPt b) : mergeVal avgLaw (some a) (some b) = .ok (midV a b) := by
+  obtain ⟨x, y, z, rfl⟩ := ha; obtain ⟨x', y', z', rfl⟩ := hb; rfl
+
+/-- one unsew of a straight-line kernel, at value level -/
+theorem unsew_step (cfg : Cfg Val) (hL : cfg.law 0 = avgLaw) {n : Nat} {u : Array Bool} {l : Nat} {s s' : Map Val}
+    (J : Inv n u s) (hfc : s.fc = 0) (hl : Live n u l) (hrun : run (oneUnsew2 cfg n l) s = (.ok (), s')) :
+    Inv n u s' ∧ s'.fc = 0 ∧ (∀ x, s'.β 2 x = s.β 2 x) ∧ ∀ x, x ≠ 0 → x < n → vval s' x = vval s x := by
+  have J' := keeps_oneUnsew2 cfg n hl s s' () J hrun
+  obtain ⟨hβ, _, _, fc', vv⟩ := vval_oneUnsew2 cfg (by rw [hL]; exact copySplit_avgLaw) J.wf J'.wf J.n_eq hfc hl.2.1 hrun
+  exact ⟨J', fc', fun x => by rw [hβ, unl1_two'], vv⟩
+
+/-- one 1-sew of a straight-line kernel, at value level.  `K` is any colouring constant on the vertices of the map
+    after the step (in the applications: the vertex identifier in the FINAL map). -/
+theorem sew_step (cfg : Cfg Val) (hL : cfg.law 0 = avgLaw) {n : Nat} {u : Array Bool} {l r : Nat} {s s' : Map Val}
+    (J : Inv n u s) (hfc : s.fc = 0) (hl : Live n u l) (hr : Live n u r)
+    (hrun : run (oneSew2 cfg n l r) s = (.ok (), s')) :
+    Inv n u s' ∧ s'.fc = 0 ∧ (∀ x, s'.β 2 x = s.β 2 x) ∧ (∀ x y, VC s x y → VC s' x y) ∧
+    (s.β 2 l ≠ 0 → VC s' (s.β 2 l) r) ∧
+    (s.β 2 l = 0 → ∀ x, x ≠ 0 → x < n → vval s' x = vval s x) ∧
+    (∀ K : Nat → Nat, (∀ x y, x ≠ 0 → x < n → y ≠ 0 → y < n → VC s' x y → K x = K y) →
+      ∀ x, x ≠ 0 → x < n → K x ≠ K r → vval s' x = vval s x) ∧
+    (s.β 2 l ≠ 0 → ∀ pa pb, vval s (s.β 2 l) = some pa → vval s r = some pb → IsPt pa → IsPt pb →
+      vval s' r = some (midV pa pb) ∧ vval s' (s.β 2 l) = some (midV pa pb) ∧
+      ∀ x, x ≠ 0 → x < n → vval s' x = some (midV pa pb) ∨ vval s' x = vval s x) := by
+  have J' := keeps_oneSew2 cfg n hl hr s s' () J hrun
+  obtain ⟨hβ, _, _, fc', mono, nul, W⟩ := vval_oneSew2 cfg J.wf J'.wf J.n_eq hfc hr.1 hr.2.1 hrun
+  have an : s.β 2 l ≠ 0 → s.β 2 l < n := fun _ => by
+    have := J.wf.range 2 (by omega) l (by rw [J.n_eq]; exact hl.2.1); rw [J.n_eq] at this; exact this
+  refine ⟨J', fc', fun x => by rw [hβ, lnk1_two'], mono, fun h2 => (W h2).1, nul, ?_, ?_⟩
+  · intro K hK x x0 xn hx
+    by_cases h2 : s.β 2 l = 0
+    · exact nul h2 x x0 xn
+    · obtain ⟨new, _, _, oth, _, _⟩ := W h2
+      refine oth x x0 xn ?_ ?_
+      · intro hc; exact hx (hK _ _ x0 xn hr.1 hr.2.1 ((mono _ _ hc).trans new))
+      · intro hc; exact hx (hK _ _ x0 xn hr.1 hr.2.1 (mono _ _ hc))
+  · intro h2 pa pb hpa hpb ia ib
+    obtain ⟨new, Wv, inn, oth, mg, mv⟩ := W h2
+    have hW : Wv = some (midV pa pb) := by
+      by_cases hid : cellId s .vertex (s.β 2 l) = cellId s .vertex r
+      · have e1 := mv hid
+        have : vval s (s.β 2 l) = vval s r := by unfold vval; rw [hid]
+        rw [hpa, hpb] at this
+        simp only [Option.some.injEq] at this
+        rw [e1, hpb, ← this, midV_self ia, this]
+      · obtain ⟨v, hv, e1⟩ := mg hid
+        rw [hpa, hpb, hL, merge_pts ia ib] at hv
+        simp only [Except.ok.injEq] at hv
+        rw [e1, hv]
+    refine ⟨?_, ?_, ?_⟩
+    · rw [inn r hr.1 hr.2.1 (Or.inr (.refl _)), hW]
+    · rw [inn _ h2 (an h2) (Or.inl (.refl _)), hW]
+    · intro x x0 xn
+      by_cases hc : VC s x (s.β 2 l) ∨ VC s x r
+      · exact Or.inl (by rw [inn x x0 xn hc, hW])
+      · exact Or.inr (oth x x0 xn (fun h => hc (Or.inl h)) (fun h => hc (Or.inr h)))
+
+/-- the empty-vertex case of a 1-sew: the vertex of `β2 l` holds nothing, the merged vertex keeps the value of `r` -/
+theorem sew_step_none (cfg : Cfg Val) (hL : cfg.law 0 = avgLaw) {n : Nat} {u : Array Bool} {l r : Nat} {s s' : Map Val}
+    (J : Inv n u s) (hfc : s.fc = 0) (hl : Live n u l) (hr : Live n u r)
+    (hrun : run (oneSew2 cfg n l r) s = (.ok (), s')) (h2 : s.β 2 l ≠ 0) {pb : Val}
+    (hpa : vval s (s.β 2 l) = none) (hpb : vval s r = some pb) :
+    vval s' r = some pb ∧ vval s' (s.β 2 l) = some pb ∧
+    ∀ x, x ≠ 0 → x < n → vval s' x = some pb ∨ vval s' x = vval s x := by
+  have J' := keeps_oneSew2 cfg n hl hr s s' () J hrun
+  obtain ⟨_, _, _, _, _, _, W⟩ := vval_oneSew2 cfg J.wf J'.wf J.n_eq hfc hr.1 hr.2.1 hrun
+  have an : s.β 2 l < n := by
+    have := J.wf.range 2 (by omega) l (by rw [J.n_eq]; exact hl.2.1); rw [J.n_eq] at this; exact this
+  obtain ⟨_, Wv, inn, oth, mg, mv⟩ := W h2
+  have hW : Wv = some pb := by
+    by_cases hid : cellId s .vertex (s.β 2 l) = cellId s .vertex r
+    · rw [mv hid, hpb]
+    · obtain ⟨v, hv, e1⟩ := mg hid
+      rw [hpa, hpb, hL] at hv
+      simp only [mergeVal, avgLaw, Except.ok.injEq] at hv
+      rw [e1, hv]
+  refine ⟨by rw [inn r hr.1 hr.2.1 (Or.inr (.refl _)), hW], by rw [inn _ h2 an (Or.inl (.refl _)), hW], ?_⟩
+  intro x x0 xn
+  by_cases hc : VC s x (s.β 2 l) ∨ VC s x r
+  · exact Or.inl (by rw [inn x x0 xn hc, hW])
+  · exact Or.inr (oth x x0 xn (fun h => hc (Or.inl h)) (fun h => hc (Or.inr h)))
+
+theorem sew_step_beta (cfg : Cfg Val) {n l r : Nat} {s s' : Map Val}
+    (hrun : run (oneSew2 cfg n l r) s = (.ok (), s')) : s'.β = lnk1 s.β l r := (step_oneSew2 hrun).2.2.β
+
+theorem unsew_step_beta (cfg : Cfg Val) {n l : Nat} {s s' : Map Val}
+    (hrun : run (oneUnsew2 cfg n l) s = (.ok (), s')) : s'.β = unl1 s.β l := (step_oneUnsew2 hrun).2.β
+
+/-- the 2-unsew of an interior edge between two different vertices, at value level -/
+theorem twoUnsew_step (cfg : Cfg Val) (hL : cfg.law 0 = avgLaw) {n : Nat} {u : Array Bool} {l : Nat} {s s' : Map Val}
+    (J : Inv n u s) (hfc : s.fc = 0) (hl : Live n u l) (h1l : s.β 1 l ≠ 0) (h1r : s.β 1 (s.β 2 l) ≠ 0)
+    (hdiff : ¬ VC s l (s.β 2 l)) (hrun : run (twoUnsew2 cfg n l) s = (.ok (), s')) :
+    Inv n u s' ∧ s'.fc = 0 ∧ s'.β = unl2 s.β l ∧ ∀ x, x ≠ 0 → x < n → vval s' x = vval s x := by
+  have J' := keeps_twoUnsew2 cfg n hl s s' () J hrun
+  obtain ⟨hβ, _, _, fc', _, vv⟩ := vval_twoUnsew2_both cfg (by rw [hL]; exact copySplit_avgLaw) J.wf J'.wf J.n_eq hfc
+    hl.2.1 h1l h1r hdiff hrun
+  exact ⟨J', fc', hβ, vv⟩
+
+/-- the 2-sew of two 1-free darts, at value level -/
+theorem twoSew_free_step (cfg : Cfg Val) {n : Nat} {u : Array Bool} {l r : Nat} {s s' : Map Val}
+    (J : Inv n u s) (hfc : s.fc = 0) (hl : Live n u l) (hr : Live n u r) (hlr : l ≠ r) (hl0 : s.β 1 l = 0)
+    (hr0 : s.β 1 r = 0) (hrun : run (twoSew2 cfg n l r) s = (.ok (), s')) :
+    Inv n u s' ∧ s'.fc = 0 ∧ s'.β = lnk2 s.β l r ∧ ∀ x, x ≠ 0 → x < n → vval s' x = vval s x := by
+  have J' := keeps_twoSew2 cfg n hl hr hlr s s' () J hrun
+  obtain ⟨hβ, _, fc', _, vv⟩ := vval_twoSew2_free cfg J.wf J'.wf J.n_eq hfc hl0 hr0 hlr hrun
+  exact ⟨J', fc', hβ, vv⟩
+
+theorem keeps0_spreadEdgeAnchor (cfg : Cfg Val) (k : Nat) (ea : Option Val) (a : Nat) :
+    Keeps0 (spreadEdgeAnchor cfg k ea a) := by
+  unfold spreadEdgeAnchor
+  cases ea
+  · exact Keeps0.pure _
+  · refine Keeps0.bind (Keeps0.ro (readOnly_vertexId2 _ _)) fun _ => ?_
+    exact Keeps0.bind (keeps0_writeAttr cfg (by simp [stVA]) _ _) fun _ => Keeps0.pure _
+
+/-- the editing part of a successful swap -/
+theorem swap_body_run (cfg : Cfg Val) (m m' : Map Val) (e : Nat) (hwf : WF 3 m) (he : C01.InUse m e)
+    (h : run (swapEdge cfg m.n e) m = (.ok (), m')) :
+    run (swapBody cfg m.n e (m.β 2 e) (m.β 0 e) (m.β 1 e) (m.β 0 (m.β 2 e)) (m.β 1 (m.β 2 e))) m = (.ok (), m') := by
+  have hn := he.2.1
+  have g := h
+  rw [C15_swap_guards cfg m.n e m (fun i d hi hd => (hwf.toSized.okβ i d).2 ⟨hi, hd⟩)
+    (fun i d hi hd => hwf.range i hi d hd) hn] at g
+  simp only [he.1, if_false] at g
+  have r0 : m.β 2 e ≠ 0 := by intro hh; simp [hh] at g
+  simp only [r0, if_false] at g
+  have gg : ¬ (m.β 1 (m.β 1 e) ≠ m.β 0 e ∨ m.β 1 (m.β 1 (m.β 2 e)) ≠ m.β 0 (m.β 2 e)) := by
+    intro hh; simp [hh] at g
+  simp only [gg, if_false] at g
+  exact g
+
+/-- **C15 (3), swap, the four corner values** (finding D9 as a theorem on arbitrary meshes): let the four corners of the
+    two triangles be different vertices holding the points `A` (origin of `e`), `B` (origin of `r = β2 e`), `C` (origin
+    of `β0 e`), `D` (origin of `β0 r`), under the average law of `Vertex2/Vertex3` (`cfg.law 0 = avgLaw`, no fault
+    injected).  After a successful `swap_edge(e)`
+    * the vertices of `β1 r` and `β1 e` — the old end points, which lost `e` and `r` — still hold `A` and `B`;
+    * the vertex of `β0 e` (which gained `e`) holds `(C + A)/2` or `((C + A)/2 + C)/2`, NOT `C`;
+    * the vertex of `β0 r` (which gained `r`) holds `(B + D)/2` or `((B + D)/2 + D)/2`, NOT `D`.
+    The second alternatives are the open-fan cases (`t = 1/4` in the finding's text).  Proof: the six unsews change no
+    dart's value (copies), `e` and `r` keep copies of `A`, `B`; the sews `(e, β0 r)` and `(β1 e, e)` / `(r, β0 e)` merge
+    those copies into `D` and `C`. -/
+theorem C15_swap_moves_corners (cfg : Cfg Val) (hL : cfg.law 0 = avgLaw) (m m' : Map Val) (e : Nat) (hwf : WF 3 m)
+    (hfc : m.fc = 0) (he : C01.InUse m e)
+    (h : run (swapEdge cfg m.n e) m = (.ok (), m'))
+    (hb : m.β 0 e ≠ 0) (hd : m.β 0 (m.β 2 e) ≠ 0)
+    (hnd : [e, m.β 2 e, m.β 1 e, m.β 0 e, m.β 1 (m.β 2 e), m.β 0 (m.β 2 e)].Nodup)
+    (hcor : [cellId m .vertex e, cellId m .vertex (m.β 2 e), cellId m .vertex (m.β 0 e),
+      cellId m .vertex (m.β 0 (m.β 2 e))].Nodup)
+    {A B C D : Val} (iA : IsPt A) (iB : IsPt B) (iC : IsPt C) (iD : IsPt D)
+    (hA : m.att 0 (cellId m .vertex e) = some A) (hB : m.att 0 (cellId m .vertex (m.β 2 e)) = some B)
+    (hC : m.att 0 (cellId m .vertex (m.β 0 e)) = some C)
+    (hD : m.att 0 (cellId m .vertex (m.β 0 (m.β 2 e))) = some D) :
+    m'.att 0 (cellId m' .vertex (m.β 1 (m.β 2 e))) = some A ∧
+    m'.att 0 (cellId m' .vertex (m.β 1 e)) = some B ∧
+    (m'.att 0 (cellId m' .vertex (m.β 0 e)) = some (midV C A) ∨
+      m'.att 0 (cellId m' .vertex (m.β 0 e)) = some (midV (midV C A) C)) ∧
+    (m'.att 0 (cellId m' .vertex (m.β 0 (m.β 2 e))) = some (midV B D) ∨
+      m'.att 0 (cellId m' .vertex (m.β 0 (m.β 2 e))) = some (midV (midV B D) D)) := by
+  have hn := he.2.1
+  obtain ⟨r0, gl, gr, hw'⟩ := swap_ok_facts cfg m m' e hwf he h hb hd
+  obtain ⟨⟨oAc, oBa⟩, ⟨kE, kR⟩, part, _⟩ := C15_swap_cells cfg m m' e hwf he h hb hd hnd
+  obtain ⟨_, _, _, _, _, _, hn', _⟩ := C15_swap_topology cfg m m' e hwf hn h hb hd hnd
+  have g := swap_body_run cfg m m' e hwf he h
+  have hr : m.β 2 e < m.n := hwf.range 2 (by omega) e hn
+  have a0 : m.β 1 e ≠ 0 := fun hh => hb (by rw [← gl, hh]; exact hwf.null 1 (by omega))
+  have c0 : m.β 1 (m.β 2 e) ≠ 0 := fun hh => hd (by rw [← gr, hh]; exact hwf.null 1 (by omega))
+  have ha : m.β 1 e < m.n := hwf.range 1 (by omega) e hn
+  have hc : m.β 1 (m.β 2 e) < m.n := hwf.range 1 (by omega) _ hr
+  have hbn : m.β 0 e < m.n := hwf.range 0 (by omega) e hn
+  have hdn : m.β 0 (m.β 2 e) < m.n := hwf.range 0 (by omega) _ hr
+  have er := (hwf.invol 2 (by omega) (by omega) e hn r0).1
+  have hnd' := hnd
+  simp only [List.nodup_cons, List.mem_cons, List.mem_nil_iff, not_or, or_false, List.nodup_nil, and_true] at hnd'
+  obtain ⟨⟨d1, d2, d3, d4, d5⟩, ⟨d6, d7, d8, d9⟩, ⟨d10, d11, d12⟩, ⟨d13, d14⟩, d15, _⟩ := hnd'
+  simp only [List.nodup_cons, List.mem_cons, List.mem_nil_iff, not_or, or_false, List.nodup_nil, and_true] at hcor
+  obtain ⟨⟨c1, c2, c3⟩, ⟨c4, c5⟩, c6, _⟩ := hcor
+  have Le : Live m.n m.u e := Live.of_inUse he
+  have Lr := live_image hwf (by omega : 2 < 3) hn r0
+  have La := live_image hwf (by omega : 1 < 3) hn a0
+  have Lb := live_image hwf (by omega : 0 < 3) hn hb
+  have Lc := live_image hwf (by omega : 1 < 3) hr c0
+  have Ld := live_image hwf (by omega : 0 < 3) hr hd
+  -- the twelve steps
+  unfold swapBody at g
+  obtain ⟨_, s1, r1, g⟩ := run_bind_ok g
+  obtain ⟨J1, f1, b1, v1⟩ := unsew_step cfg hL (Inv.of_wf hwf) hfc Le r1
+  obtain ⟨_, s2, r2, g⟩ := run_bind_ok g
+  obtain ⟨J2, f2, b2, v2⟩ := unsew_step cfg hL J1 f1 Lr r2
+  obtain ⟨_, s3, r3, g⟩ := run_bind_ok g
+  obtain ⟨J3, f3, b3, v3⟩ := unsew_step cfg hL J2 f2 Lb r3
+  obtain ⟨_, s4, r4, g⟩ := run_bind_ok g
+  obtain ⟨J4, f4, b4, v4⟩ := unsew_step cfg hL J3 f3 Ld r4
+  obtain ⟨_, s5, r5, g⟩ := run_bind_ok g
+  obtain ⟨J5, f5, b5, v5⟩ := unsew_step cfg hL J4 f4 La r5
+  obtain ⟨_, s6, r6, g⟩ := run_bind_ok g
+  obtain ⟨J6, f6, b6, v6⟩ := unsew_step cfg hL J5 f5 Lc r6
+  have V6 : ∀ x, x ≠ 0 → x < m.n → vval s6 x = vval m x := fun x x0 xn => by
+    rw [v6 x x0 xn, v5 x x0 xn, v4 x x0 xn, v3 x x0 xn, v2 x x0 xn, v1 x x0 xn]
+  have B6 : ∀ x, s6.β 2 x = m.β 2 x := fun x => by rw [b6, b5, b4, b3, b2, b1]
+  obtain ⟨_, s7, r7, g⟩ := run_bind_ok g
+  obtain ⟨J7, f7, b7, m7, n7, z7, k7, w7⟩ := sew_step cfg hL J6 f6 Le Ld r7
+  obtain ⟨_, s8, r8, g⟩ := run_bind_ok g
+  obtain ⟨J8, f8, b8, m8, n8, z8, k8, w8⟩ := sew_step cfg hL J7 f7 Ld La r8
+  obtain ⟨_, s9, r9, g⟩ := run_bind_ok g
+  obtain ⟨J9, f9, b9, m9, n9, z9, k9, w9⟩ := sew_step cfg hL J8 f8 La Le r9
+  obtain ⟨_, s10, r10, g⟩ := run_bind_ok g
+  obtain ⟨J10, f10, b10, m10, n10, z10, k10, w10⟩ := sew_step cfg hL J9 f9 Lr Lb r10
+  obtain ⟨_, s11, r11, g⟩ := run_bind_ok g
+  obtain ⟨J11, f11, b11, m11, n11, z11, k11, w11⟩ := sew_step cfg hL J10 f10 Lb Lc r11
+  obtain ⟨J12, f12, b12, m12, n12, z12, k12, w12⟩ := sew_step cfg hL J11 f11 Lc Lr g
+  -- β2 never changes
+  have B7 : ∀ x, s7.β 2 x = m.β 2 x := fun x => by rw [b7, B6]
+  have B8 : ∀ x, s8.β 2 x = m.β 2 x := fun x => by rw [b8, B7]
+  have B9 : ∀ x, s9.β 2 x = m.β 2 x := fun x => by rw [b9, B8]
+  have B10 : ∀ x, s10.β 2 x = m.β 2 x := fun x => by rw [b10, B9]
+  have B11 : ∀ x, s11.β 2 x = m.β 2 x := fun x => by rw [b11, B10]
+  rw [B6] at n7 z7 w7
+  rw [B7] at n8 z8 w8
+  rw [B8] at n9 z9 w9
+  rw [B9] at n10 z10 w10
+  rw [B10] at n11 z11 w11
+  rw [B11] at n12 z12 w12
+  -- the final colouring
+  obtain ⟨K, hKdef⟩ : ∃ K : Nat → Nat, K = fun x => cellId m' .vertex x := ⟨_, rfl⟩
+  have Kx : ∀ x, K x = cellId m' .vertex x := fun x => by rw [hKdef]
+  have hK12 : ∀ x y, x ≠ 0 → x < m.n → y ≠ 0 → y < m.n → VC m' x y → K x = K y := by
+    intro x y x0 xn y0 yn hc
+    rw [Kx, Kx]
+    exact (vid_of_vc hw' x0 (by rw [hn']; exact xn) y0 (by rw [hn']; exact yn)).2 hc
+  have hK11 : ∀ x y, x ≠ 0 → x < m.n → y ≠ 0 → y < m.n → VC s11 x y → K x = K y :=
+    fun x y x0 xn y0 yn hc => hK12 x y x0 xn y0 yn (m12 _ _ hc)
+  have hK10 : ∀ x y, x ≠ 0 → x < m.n → y ≠ 0 → y < m.n → VC s10 x y → K x = K y :=
+    fun x y x0 xn y0 yn hc => hK11 x y x0 xn y0 yn (m11 _ _ hc)
+  have hK9 : ∀ x y, x ≠ 0 → x < m.n → y ≠ 0 → y < m.n → VC s9 x y → K x = K y :=
+    fun x y x0 xn y0 yn hc => hK10 x y x0 xn y0 yn (m10 _ _ hc)
+  have hK8 : ∀ x y, x ≠ 0 → x < m.n → y ≠ 0 → y < m.n → VC s8 x y → K x = K y :=
+    fun x y x0 xn y0 yn hc => hK9 x y x0 xn y0 yn (m9 _ _ hc)
+  have hK7 : ∀ x y, x ≠ 0 → x < m.n → y ≠ 0 → y < m.n → VC s7 x y → K x = K y :=
+    fun x y x0 xn y0 yn hc => hK8 x y x0 xn y0 yn (m8 _ _ hc)
+  have kE : K e = K (m.β 0 e) := by rw [Kx, Kx]; exact kE
+  have kR : K (m.β 2 e) = K (m.β 0 (m.β 2 e)) := by rw [Kx, Kx]; exact kR
+  have partK : ∀ p q, p ≠ 0 → p < m.n → q ≠ 0 → q < m.n → p ≠ e → p ≠ m.β 2 e → q ≠ e → q ≠ m.β 2 e →
+      (K p = K q ↔ cellId m .vertex p = cellId m .vertex q) := by
+    intro p q p0 pn q0 qn p1 p2 q1 q2
+    rw [Kx, Kx]
+    exact part p q p0 pn q0 qn (by simp [p1, p2]) (by simp [q1, q2])
+  -- the four final colours are different
+  have kAB : K (m.β 1 (m.β 2 e)) ≠ K (m.β 1 e) := fun hh =>
+    c1 (by rw [oAc, oBa]; exact (partK _ _ c0 hc a0 ha (Ne.symm d4) (Ne.symm d8) (Ne.symm d2) (Ne.symm d6)).1 hh)
+  have kAC : K (m.β 1 (m.β 2 e)) ≠ K (m.β 0 e) := fun hh =>
+    c2 (by rw [oAc]; exact (partK _ _ c0 hc hb hbn (Ne.symm d4) (Ne.symm d8) (Ne.symm d3) (Ne.symm d7)).1 hh)
+  have kAD : K (m.β 1 (m.β 2 e)) ≠ K (m.β 0 (m.β 2 e)) := fun hh =>
+    c3 (by rw [oAc]; exact (partK _ _ c0 hc hd hdn (Ne.symm d4) (Ne.symm d8) (Ne.symm d5) (Ne.symm d9)).1 hh)
+  have kBC : K (m.β 1 e) ≠ K (m.β 0 e) := fun hh =>
+    c4 (by rw [oBa]; exact (partK _ _ a0 ha hb hbn (Ne.symm d2) (Ne.symm d6) (Ne.symm d3) (Ne.symm d7)).1 hh)
+  have kBD : K (m.β 1 e) ≠ K (m.β 0 (m.β 2 e)) := fun hh =>
+    c5 (by rw [oBa]; exact (partK _ _ a0 ha hd hdn (Ne.symm d2) (Ne.symm d6) (Ne.symm d5) (Ne.symm d9)).1 hh)
+  have kCD : K (m.β 0 e) ≠ K (m.β 0 (m.β 2 e)) := fun hh =>
+    c6 ((partK _ _ hb hbn hd hdn (Ne.symm d3) (Ne.symm d7) (Ne.symm d5) (Ne.symm d9)).1 hh)
+  -- what the darts of each final colour saw before the call
+  have clsA : ∀ x, x ≠ 0 → x < m.n → K x = K (m.β 1 (m.β 2 e)) → vval m x = some A := by
+    intro x x0 xn hx
+    have x1 : x ≠ e := by intro hh; rw [hh, kE] at hx; exact kAC hx.symm
+    have x2 : x ≠ m.β 2 e := by intro hh; rw [hh, kR] at hx; exact kAD hx.symm
+    have := (partK x _ x0 xn c0 hc x1 x2 (Ne.symm d4) (Ne.symm d8)).1 hx
+    unfold vval; rw [this, ← oAc]; exact hA
+  have clsB : ∀ x, x ≠ 0 → x < m.n → K x = K (m.β 1 e) → vval m x = some B := by
+    intro x x0 xn hx
+    have x1 : x ≠ e := by intro hh; rw [hh, kE] at hx; exact kBC hx.symm
+    have x2 : x ≠ m.β 2 e := by intro hh; rw [hh, kR] at hx; exact kBD hx.symm
+    have := (partK x _ x0 xn a0 ha x1 x2 (Ne.symm d2) (Ne.symm d6)).1 hx
+    unfold vval; rw [this, ← oBa]; exact hB
+  have clsC : ∀ x, x ≠ 0 → x < m.n → K x = K (m.β 0 e) → x ≠ e → vval m x = some C := by
+    intro x x0 xn hx x1
+    have x2 : x ≠ m.β 2 e := by intro hh; rw [hh, kR] at hx; exact kCD hx.symm
+    have := (partK x _ x0 xn hb hbn x1 x2 (Ne.symm d3) (Ne.symm d7)).1 hx
+    unfold vval; rw [this]; exact hC
+  have clsD : ∀ x, x ≠ 0 → x < m.n → K x = K (m.β 0 (m.β 2 e)) → x ≠ m.β 2 e → vval m x = some D := by
+    intro x x0 xn hx x2
+    have x1 : x ≠ e := by intro hh; rw [hh, kE] at hx; exact kCD hx
+    have := (partK x _ x0 xn hd hdn x1 x2 (Ne.symm d5) (Ne.symm d9)).1 hx
+    unfold vval; rw [this]; exact hD
+  have valE : vval m e = some A := hA
+  have valR : vval m (m.β 2 e) = some B := hB
+  -- a step of another colour changes nothing for this colour
+  have keep : ∀ (col : Nat) (Q : Nat → Option Val → Prop) (s s' : Map Val) (rk : Nat),
+      (∀ x, x ≠ 0 → x < m.n → K x ≠ K rk → vval s' x = vval s x) → col ≠ K rk →
+      (∀ x, x ≠ 0 → x < m.n → K x = col → Q x (vval s x)) → ∀ x, x ≠ 0 → x < m.n → K x = col → Q x (vval s' x) := by
+    intro col Q s s' rk hk hne P x x0 xn hx
+    rw [hk x x0 xn (by rw [hx]; exact hne)]; exact P x x0 xn hx
+  -- a step inside a colour whose darts all see the same point
+  have same : ∀ (col : Nat) (P : Val) (s s' : Map Val) (ak rk : Nat), IsPt P → rk ≠ 0 → rk < m.n → ak < m.n →
+      K rk = col → (ak ≠ 0 → K ak = col) →
+      (ak = 0 → ∀ x, x ≠ 0 → x < m.n → vval s' x = vval s x) →
+      (ak ≠ 0 → ∀ pa pb, vval s ak = some pa → vval s rk = some pb → IsPt pa → IsPt pb →
+        vval s' rk = some (midV pa pb) ∧ vval s' ak = some (midV pa pb) ∧
+        ∀ x, x ≠ 0 → x < m.n → vval s' x = some (midV pa pb) ∨ vval s' x = vval s x) →
+      (∀ x, x ≠ 0 → x < m.n → K x = col → vval s x = some P) → ∀ x, x ≠ 0 → x < m.n → K x = col → vval s' x = some P := by
+    intro col P s s' ak rk iP rk0 rkn akn kr ka hz hw Pre x x0 xn hx
+    by_cases h2 : ak = 0
+    · rw [hz h2 x x0 xn]; exact Pre x x0 xn hx
+    · obtain ⟨_, _, all⟩ := hw h2 P P (Pre ak h2 akn (ka h2)) (Pre rk rk0 rkn kr) iP iP
+      rw [midV_self iP] at all
+      rcases all x x0 xn with hh | hh
+      · exact hh
+      · rw [hh]; exact Pre x x0 xn hx
+  have rng2 : ∀ x, x < m.n → m.β 2 x < m.n := fun x hx => hwf.range 2 (by omega) x hx
+  -- colour A
+  have A6 : ∀ x, x ≠ 0 → x < m.n → K x = K (m.β 1 (m.β 2 e)) → vval s6 x = some A := fun x x0 xn hx => by
+    rw [V6 x x0 xn]; exact clsA x x0 xn hx
+  have A7 := keep _ (fun _ v => v = some A) s6 s7 _ (k7 K hK7) kAD A6
+  have A8 := keep _ (fun _ v => v = some A) s7 s8 _ (k8 K hK8) kAB A7
+  have A9 := keep _ (fun _ v => v = some A) s8 s9 _ (k9 K hK9) (by rw [kE]; exact kAC) A8
+  have A10 := keep _ (fun _ v => v = some A) s9 s10 _ (k10 K hK10) kAC A9
+  have A11 := same _ A s10 s11 (m.β 2 (m.β 0 e)) (m.β 1 (m.β 2 e)) iA c0 hc (rng2 _ hbn) rfl
+    (fun h2 => hK11 _ _ h2 (rng2 _ hbn) c0 hc (n11 h2)) z11 w11 A10
+  have A12 := keep _ (fun _ v => v = some A) s11 m' _ (k12 K hK12) (by rw [kR]; exact kAD) A11
+  -- colour B
+  have Bc6 : ∀ x, x ≠ 0 → x < m.n → K x = K (m.β 1 e) → vval s6 x = some B := fun x x0 xn hx => by
+    rw [V6 x x0 xn]; exact clsB x x0 xn hx
+  have Bc7 := keep _ (fun _ v => v = some B) s6 s7 _ (k7 K hK7) kBD Bc6
+  have Bc8 := same _ B s7 s8 (m.β 2 (m.β 0 (m.β 2 e))) (m.β 1 e) iB a0 ha (rng2 _ hdn) rfl
+    (fun h2 => hK8 _ _ h2 (rng2 _ hdn) a0 ha (n8 h2)) z8 w8 Bc7
+  have Bc9 := keep _ (fun _ v => v = some B) s8 s9 _ (k9 K hK9) (by rw [kE]; exact kBC) Bc8
+  have Bc10 := keep _ (fun _ v => v = some B) s9 s10 _ (k10 K hK10) kBC Bc9
+  have Bc11 := keep _ (fun _ v => v = some B) s10 s11 _ (k11 K hK11) (Ne.symm kAB) Bc10
+  have Bc12 := keep _ (fun _ v => v = some B) s11 m' _ (k12 K hK12) (by rw [kR]; exact kBD) Bc11
+  -- colour D: the old vertex D and the dart `r`
+  have r0' : m.β 2 e ≠ 0 := r0
+  have D6 : ∀ x, x ≠ 0 → x < m.n → K x = K (m.β 0 (m.β 2 e)) → x ≠ m.β 2 e → vval s6 x = some D :=
+    fun x x0 xn hx x2 => by rw [V6 x x0 xn]; exact clsD x x0 xn hx x2
+  have R6 : vval s6 (m.β 2 e) = some B := by rw [V6 _ r0 hr]; exact valR
+  obtain ⟨d7v, r7v, all7⟩ := w7 r0 B D R6 (D6 _ hd hdn rfl (Ne.symm d9)) iB iD
+  have D7 : ∀ x, x ≠ 0 → x < m.n → K x = K (m.β 0 (m.β 2 e)) →
+      (fun _ v => v = some D ∨ v = some (midV B D)) x (vval s7 x) := by
+    intro x x0 xn hx
+    by_cases x2 : x = m.β 2 e
+    · rw [x2]; exact Or.inr r7v
+    · rcases all7 x x0 xn with hh | hh
+      · exact Or.inr hh
+      · exact Or.inl (by rw [hh]; exact D6 x x0 xn hx x2)
+  have D8 := keep _ (fun _ v => v = some D ∨ v = some (midV B D)) s7 s8 _ (k8 K hK8) (Ne.symm kBD) D7
+  have D9 := keep _ (fun _ v => v = some D ∨ v = some (midV B D)) s8 s9 _ (k9 K hK9) (by rw [kE]; exact Ne.symm kCD) D8
+  have D10 := keep _ (fun _ v => v = some D ∨ v = some (midV B D)) s9 s10 _ (k10 K hK10) (Ne.symm kCD) D9
+  have D11 := keep _ (fun _ v => v = some D ∨ v = some (midV B D)) s10 s11 _ (k11 K hK11) (Ne.symm kAD) D10
+  have one : ∀ (s s' : Map Val) (rk x : Nat), (∀ x, x ≠ 0 → x < m.n → K x ≠ K rk → vval s' x = vval s x) →
+      x ≠ 0 → x < m.n → K x ≠ K rk → vval s' x = vval s x := fun s s' rk x hk x0 xn hx => hk x x0 xn hx
+  have d11v : vval s11 (m.β 0 (m.β 2 e)) = some (midV B D) := by
+    rw [k11 K hK11 _ hd hdn (Ne.symm kAD), k10 K hK10 _ hd hdn (Ne.symm kCD),
+      k9 K hK9 _ hd hdn (by rw [kE]; exact Ne.symm kCD), k8 K hK8 _ hd hdn (Ne.symm kBD)]
+    exact d7v
+  have r11v : vval s11 (m.β 2 e) = some (midV B D) := by
+    rw [k11 K hK11 _ r0 hr (by rw [kR]; exact Ne.symm kAD), k10 K hK10 _ r0 hr (by rw [kR]; exact Ne.symm kCD),
+      k9 K hK9 _ r0 hr (by rw [kR, kE]; exact Ne.symm kCD), k8 K hK8 _ r0 hr (by rw [kR]; exact Ne.symm kBD)]
+    exact r7v
+  have iBD := midV_pt iB iD
+  have Dfin : vval m' (m.β 0 (m.β 2 e)) = some (midV B D) ∨ vval m' (m.β 0 (m.β 2 e)) = some (midV (midV B D) D) := by
+    by_cases h2 : m.β 2 (m.β 1 (m.β 2 e)) = 0
+    · left; rw [z12 h2 _ hd hdn]; exact d11v
+    · have kk : K (m.β 2 (m.β 1 (m.β 2 e))) = K (m.β 0 (m.β 2 e)) := by
+        rw [← kR]; exact hK12 _ _ h2 (rng2 _ hc) r0 hr (n12 h2)
+      rcases D11 _ h2 (rng2 _ hc) kk with pa | pa
+      · obtain ⟨_, _, all⟩ := w12 h2 D (midV B D) pa r11v iD iBD
+        rcases all _ hd hdn with hh | hh
+        · right; rw [hh, midV_comm iD iBD]
+        · left; rw [hh]; exact d11v
+      · obtain ⟨_, _, all⟩ := w12 h2 (midV B D) (midV B D) pa r11v iBD iBD
+        rw [midV_self iBD] at all
+        rcases all _ hd hdn with hh | hh
+        · left; exact hh
+        · left; rw [hh]; exact d11v
+  -- colour C: the old vertex C and the dart `e`
+  have C6 : ∀ x, x ≠ 0 → x < m.n → K x = K (m.β 0 e) →
+      (fun x v => x ≠ e → v = some C) x (vval s6 x) :=
+    fun x x0 xn hx x1 => by rw [V6 x x0 xn]; exact clsC x x0 xn hx x1
+  have C7 := keep _ (fun x v => x ≠ e → v = some C) s6 s7 _ (k7 K hK7) kCD C6
+  have C8 := keep _ (fun x v => x ≠ e → v = some C) s7 s8 _ (k8 K hK8) (Ne.symm kBC) C7
+  have E8 : vval s8 e = some A := by
+    rw [k8 K hK8 _ he.1 hn (by rw [kE]; exact Ne.symm kBC), k7 K hK7 _ he.1 hn (by rw [kE]; exact kCD), V6 _ he.1 hn]
+    exact valE
+  have iCA := midV_pt iC iA
+  have ua : m.β 2 (m.β 1 e) ≠ e := by
+    intro hh
+    have := (hwf.invol 2 (by omega) (by omega) _ ha (by rw [hh]; exact he.1)).1
+    rw [hh] at this; exact d6 this
+  have Q9 : (vval s9 e = some (midV C A) ∧ ∀ x, x ≠ 0 → x < m.n → K x = K (m.β 0 e) → x ≠ e →
+        (vval s9 x = some C ∨ vval s9 x = some (midV C A))) ∨
+      (vval s9 e = some A ∧ ∀ x, x ≠ 0 → x < m.n → K x = K (m.β 0 e) → x ≠ e → vval s9 x = some C) := by
+    by_cases h2 : m.β 2 (m.β 1 e) = 0
+    · right
+      exact ⟨by rw [z9 h2 _ he.1 hn]; exact E8, fun x x0 xn hx x1 => by rw [z9 h2 x x0 xn]; exact C8 x x0 xn hx x1⟩
+    · left
+      have kk : K (m.β 2 (m.β 1 e)) = K (m.β 0 e) := by
+        rw [← kE]; exact hK9 _ _ h2 (rng2 _ ha) he.1 hn (n9 h2)
+      obtain ⟨e9, _, all⟩ := w9 h2 C A (C8 _ h2 (rng2 _ ha) kk ua) E8 iC iA
+      refine ⟨e9, fun x x0 xn hx x1 => ?_⟩
+      rcases all x x0 xn with hh | hh
+      · exact Or.inr hh
+      · exact Or.inl (by rw [hh]; exact C8 x x0 xn hx x1)
+  have b10v : vval s10 (m.β 0 e) = some (midV C A) ∨ vval s10 (m.β 0 e) = some (midV (midV C A) C) := by
+    have h2 : m.β 2 (m.β 2 e) ≠ 0 := by rw [er]; exact he.1
+    rcases Q9 with ⟨e9, c9⟩ | ⟨e9, c9⟩
+    · rcases c9 _ hb hbn rfl (Ne.symm d3) with pb | pb
+      · right; exact (w10 h2 (midV C A) C (by rw [er]; exact e9) pb iCA iC).1
+      · left
+        have := (w10 h2 (midV C A) (midV C A) (by rw [er]; exact e9) pb iCA iCA).1
+        rw [midV_self iCA] at this; exact this
+    · left
+      have := (w10 h2 A C (by rw [er]; exact e9) (c9 _ hb hbn rfl (Ne.symm d3)) iA iC).1
+      rw [midV_comm iA iC] at this; exact this
+  have Cfin : vval m' (m.β 0 e) = some (midV C A) ∨ vval m' (m.β 0 e) = some (midV (midV C A) C) := by
+    rw [k12 K hK12 _ hb hbn (by rw [kR]; exact kCD), k11 K hK11 _ hb hbn (Ne.symm kAC)]
+    exact b10v
+  exact ⟨A12 _ c0 hc rfl, Bc12 _ a0 ha rfl, Cfin, Dfin⟩
+
+
+/-! ## (2) cut_inner_edge: the midpoint in the final map -/
+
+open HC.C04 in
+/-- **C15 (2), cut_inner_edge, the midpoint in the FINAL map**: on ANY well-formed 2-map (no fault injected, the
+    `Vertex2/Vertex3` law on storage 0), after a successful `cut_inner_edge(e, [n1 … n6])` on an interior edge between
+    two DIFFERENT vertices whose two faces are closed triangles, with free in-use spare darts in ANY numbering that
+    carry no vertex value, the new vertex `{n1, n3, n4, n6}` has the identifier `min(n1, n3, n4, n6)` in the resulting
+    map and the vertex storage holds there the average of the two end points (the values at `vertex_id(e)` and
+    `vertex_id(β1 e)` of the input).  Proof at dart level (Lemmas/RemeshValues.lean): the write puts the midpoint on
+    `{n1, n3}`; the 2-unsew, the four 1-unsews and the two 2-sews change no dart's value; the 1-sew `(e, n1)` merges the
+    empty vertex `{n4, n6}` into it (`merge_incomplete` keeps the value), `(r, n4)` merges it with itself; the six other
+    1-sews join darts of other final vertices. -/
+theorem C15_cutInner_midpoint_in_final_map (cfg : Cfg Val) (hL : cfg.law 0 = avgLaw) (m m' : Map Val)
+    (e n1 n2 n3 n4 n5 n6 : Nat) (hwf : WF 3 m) (hfc : m.fc = 0) (he : C01.InUse m e)
+    (h : run (cutInnerEdge cfg m.n e n1 n2 n3 n4 n5 n6) m = (.ok (), m'))
+    (hr0 : m.β 2 e ≠ 0)
+    (htl : m.β 1 (m.β 1 e) = m.β 0 e) (hb : m.β 0 e ≠ 0)
+    (htr : m.β 1 (m.β 1 (m.β 2 e)) = m.β 0 (m.β 2 e)) (hd : m.β 0 (m.β 2 e) ≠ 0)
+    (hs : ∀ x, x ∈ [n1, n2, n3, n4, n5, n6] → Spare m x)
+    (hnone : ∀ x, x ∈ [n1, n2, n3, n4, n5, n6] → m.att 0 x = none)
+    (hends : cellId m .vertex e ≠ cellId m .vertex (m.β 2 e))
+    (hnd : [e, m.β 2 e, m.β 1 e, m.β 0 e, m.β 1 (m.β 2 e), m.β 0 (m.β 2 e), n1, n2, n3, n4, n5, n6].Nodup) :
+    ∃ va vb : Val, m.att 0 (cellId m .vertex e) = some va ∧ m.att 0 (cellId m .vertex (m.β 1 e)) = some vb ∧
+      cellId m' .vertex n1 = min n1 (min n3 (min n4 n6)) ∧
+      m'.att 0 (cellId m' .vertex n1) = some (avgVal va vb) := by
+  have hn := he.2.1
+  have h0 := h
+  have hr : m.β 2 e < m.n := hwf.range 2 (by omega) e hn
+  have a0 : m.β 1 e ≠ 0 := fun hh => hb (by rw [← htl, hh]; exact hwf.null 1 (by omega))
+  have c0 : m.β 1 (m.β 2 e) ≠ 0 := fun hh => hd (by rw [← htr, hh]; exact hwf.null 1 (by omega))
+  have ha : m.β 1 e < m.n := hwf.range 1 (by omega) e hn
+  have hc : m.β 1 (m.β 2 e) < m.n := hwf.range 1 (by omega) _ hr
+  have hbn : m.β 0 e < m.n := hwf.range 0 (by omega) e hn
+  have hdn : m.β 0 (m.β 2 e) < m.n := hwf.range 0 (by omega) _ hr
+  have er := (hwf.invol 2 (by omega) (by omega) e hn hr0).1
+  have hnd' := hnd
+  simp only [List.nodup_cons, List.mem_cons, List.mem_nil_iff, not_or, or_false, List.nodup_nil, and_true] at hnd'
+  obtain ⟨⟨q1, q2, q3, q4, q5, q6, q7, q8, q9, q10, q11⟩, ⟨q12, q13, q14, q15, q16, q17, q18, q19, q20, q21⟩, ⟨q22, q23, q24, q25, q26, q27, q28, q29, q30⟩, ⟨q31, q32, q33, q34, q35, q36, q37, q38⟩, ⟨q39, q40, q41, q42, q43, q44, q45⟩, ⟨q46, q47, q48, q49, q50, q51⟩, ⟨q52, q53, q54, q55, q56⟩, ⟨q57, q58, q59, q60⟩, ⟨q61, q62, q63⟩, ⟨q64, q65⟩, q66, _⟩ := hnd'
+  have s1 := hs n1 (by simp); have s2 := hs n2 (by simp); have s3 := hs n3 (by simp)
+  have s4 := hs n4 (by simp); have s5 := hs n5 (by simp); have s6 := hs n6 (by simp)
+  have L1 : Live m.n m.u n1 := Live.of_inUse s1.1
+  have L2 : Live m.n m.u n2 := Live.of_inUse s2.1
+  have L3 : Live m.n m.u n3 := Live.of_inUse s3.1
+  have L4 : Live m.n m.u n4 := Live.of_inUse s4.1
+  have L5 : Live m.n m.u n5 := Live.of_inUse s5.1
+  have L6 : Live m.n m.u n6 := Live.of_inUse s6.1
+  have Le : Live m.n m.u e := Live.of_inUse he
+  have Lr := live_image hwf (by omega : 2 < 3) hn hr0
+  have La := live_image hwf (by omega : 1 < 3) hn a0
+  have Lb := live_image hwf (by omega : 0 < 3) hn hb
+  have Lc := live_image hwf (by omega : 1 < 3) hr c0
+  have Ld := live_image hwf (by omega : 0 < 3) hr hd
+  have z : ∀ i, m.β i 0 = 0 := beta_zero hwf
+  have sb : ∀ i, m.β i n1 = 0 ∧ m.β i n2 = 0 ∧ m.β i n3 = 0 ∧ m.β i n4 = 0 ∧ m.β i n5 = 0 ∧ m.β i n6 = 0 := fun i =>
+    ⟨spare_beta hwf s1 i, spare_beta hwf s2 i, spare_beta hwf s3 i, spare_beta hwf s4 i, spare_beta hwf s5 i,
+      spare_beta hwf s6 i⟩
+  -- the four links of the spare darts
+  unfold cutInnerEdge at h
+  obtain ⟨_, m1, r1, h⟩ := run_bind_ok h
+  have I1 := Keeps.twoLinkCore (X := Val) L1 L2 q52 m m1 _ (Inv.of_wf hwf) r1
+  obtain ⟨_, _, st1⟩ := step_twoLinkCore r1
+  obtain ⟨_, m2, r2, h⟩ := run_bind_ok h
+  have I2 := Keeps.oneLinkCore (X := Val) L2 L3 m1 m2 _ I1 r2
+  obtain ⟨_, _, st2⟩ := step_oneLinkCore r2
+  obtain ⟨_, m3, r3, h⟩ := run_bind_ok h
+  have I3 := Keeps.twoLinkCore (X := Val) L4 L5 q64 m2 m3 _ I2 r3
+  obtain ⟨_, _, st3⟩ := step_twoLinkCore r3
+  obtain ⟨_, m4, r4, h⟩ := run_bind_ok h
+  have I4 := Keeps.oneLinkCore (X := Val) L5 L6 m3 m4 _ I3 r4
+  obtain ⟨_, _, st4⟩ := step_oneLinkCore r4
+  have b4 : m4.β = lnk1 (lnk2 (lnk1 (lnk2 m.β n1 n2) n2 n3) n4 n5) n5 n6 := by rw [st4.β, st3.β, st2.β, st1.β]
+  have fc4 : m4.fc = 0 := by rw [(link1_fc r4).1, (linkI_fc r3).1, (link1_fc r2).1, (linkI_fc r1).1]; exact hfc
+  have at4 : ∀ x, m4.att 0 x = m.att 0 x := fun x => by
+    rw [(link1_fc r4).2.1, (linkI_fc r3).2.1, (link1_fc r2).2.1, (linkI_fc r1).2.1]
+  -- the β function after the four links
+  obtain ⟨F, hF⟩ : ∃ F, F = lnk1 (lnk2 (lnk1 (lnk2 m.β n1 n2) n2 n3) n4 n5) n5 n6 := ⟨_, rfl⟩
+  rw [← hF] at b4
+  have n0 : n1 ≠ 0 ∧ n2 ≠ 0 ∧ n3 ≠ 0 ∧ n4 ≠ 0 ∧ n5 ≠ 0 ∧ n6 ≠ 0 := ⟨s1.1.1, s2.1.1, s3.1.1, s4.1.1, s5.1.1, s6.1.1⟩
+  have Fold : ∀ i x, x ≠ n1 → x ≠ n2 → x ≠ n3 → x ≠ n4 → x ≠ n5 → x ≠ n6 → F i x = m.β i x := by
+    intro i x x1 x2 x3 x4 x5 x6
+    rw [hF]; simp [lnk1, lnk2, upd_apply, Ne.symm x1, Ne.symm x2, Ne.symm x3, Ne.symm x4, Ne.symm x5, Ne.symm x6]
+  have F1 : F 1 n1 = 0 ∧ F 1 n2 = n3 ∧ F 1 n3 = 0 ∧ F 1 n4 = 0 ∧ F 1 n5 = n6 ∧ F 1 n6 = 0 := by
+    rw [hF]; simp [lnk1, lnk2, upd_apply, sb 1, q1, Ne.symm q1, q2, Ne.symm q2, q3, Ne.symm q3, q4, Ne.symm q4, q5, Ne.symm q5, q6, Ne.symm q6, q7, Ne.symm q7, q8, Ne.symm q8, q9, Ne.symm q9, q10, Ne.symm q10, q11, Ne.symm q11, q12, Ne.symm q12, q13, Ne.symm q13, q14, Ne.symm q14, q15, Ne.symm q15, q16, Ne.symm q16, q17, Ne.symm q17, q18, Ne.symm q18, q19, Ne.symm q19, q20, Ne.symm q20, q21, Ne.symm q21, q22, Ne.symm q22, q23, Ne.symm q23, q24, Ne.symm q24, q25, Ne.symm q25, q26, Ne.symm q26, q27, Ne.symm q27, q28, Ne.symm q28, q29, Ne.symm q29, q30, Ne.symm q30, q31, Ne.symm q31, q32, Ne.symm q32, q33, Ne.symm q33, q34, Ne.symm q34, q35, Ne.symm q35, q36, Ne.symm q36, q37, Ne.symm q37, q38, Ne.symm q38, q39, Ne.symm q39, q40, Ne.symm q40, q41, Ne.symm q41, q42, Ne.symm q42, q43, Ne.symm q43, q44, Ne.symm q44, q45, Ne.symm q45, q46, Ne.symm q46, q47, Ne.symm q47, q48, Ne.symm q48, q49, Ne.symm q49, q50, Ne.symm q50, q51, Ne.symm q51, q52, Ne.symm q52, q53, Ne.symm q53, q54, Ne.symm q54, q55, Ne.symm q55, q56, Ne.symm q56, q57, Ne.symm q57, q58, Ne.symm q58, q59, Ne.symm q59, q60, Ne.symm q60, q61, Ne.symm q61, q62, Ne.symm q62, q63, Ne.symm q63, q64, Ne.symm q64, q65, Ne.symm q65, q66, Ne.symm q66]
+  have F2 : F 2 n1 = n2 ∧ F 2 n2 = n1 ∧ F 2 n3 = 0 ∧ F 2 n4 = n5 ∧ F 2 n5 = n4 ∧ F 2 n6 = 0 := by
+    rw [hF]; simp [lnk1, lnk2, upd_apply, sb 2, q1, Ne.symm q1, q2, Ne.symm q2, q3, Ne.symm q3, q4, Ne.symm q4, q5, Ne.symm q5, q6, Ne.symm q6, q7, Ne.symm q7, q8, Ne.symm q8, q9, Ne.symm q9, q10, Ne.symm q10, q11, Ne.symm q11, q12, Ne.symm q12, q13, Ne.symm q13, q14, Ne.symm q14, q15, Ne.symm q15, q16, Ne.symm q16, q17, Ne.symm q17, q18, Ne.symm q18, q19, Ne.symm q19, q20, Ne.symm q20, q21, Ne.symm q21, q22, Ne.symm q22, q23, Ne.symm q23, q24, Ne.symm q24, q25, Ne.symm q25, q26, Ne.symm q26, q27, Ne.symm q27, q28, Ne.symm q28, q29, Ne.symm q29, q30, Ne.symm q30, q31, Ne.symm q31, q32, Ne.symm q32, q33, Ne.symm q33, q34, Ne.symm q34, q35, Ne.symm q35, q36, Ne.symm q36, q37, Ne.symm q37, q38, Ne.symm q38, q39, Ne.symm q39, q40, Ne.symm q40, q41, Ne.symm q41, q42, Ne.symm q42, q43, Ne.symm q43, q44, Ne.symm q44, q45, Ne.symm q45, q46, Ne.symm q46, q47, Ne.symm q47, q48, Ne.symm q48, q49, Ne.symm q49, q50, Ne.symm q50, q51, Ne.symm q51, q52, Ne.symm q52, q53, Ne.symm q53, q54, Ne.symm q54, q55, Ne.symm q55, q56, Ne.symm q56, q57, Ne.symm q57, q58, Ne.symm q58, q59, Ne.symm q59, q60, Ne.symm q60, q61, Ne.symm q61, q62, Ne.symm q62, q63, Ne.symm q63, q64, Ne.symm q64, q65, Ne.symm q65, q66, Ne.symm q66]
+  have Fe : ∀ i, F i e = m.β i e := fun i => Fold i e q6 q7 q8 q9 q10 q11
+  have Fr : ∀ i, F i (m.β 2 e) = m.β i (m.β 2 e) := fun i => Fold i _ q16 q17 q18 q19 q20 q21
+  have Fa : ∀ i, F i (m.β 1 e) = m.β i (m.β 1 e) := fun i => Fold i _ q25 q26 q27 q28 q29 q30
+  have Fc : ∀ i, F i (m.β 1 (m.β 2 e)) = m.β i (m.β 1 (m.β 2 e)) := fun i => Fold i _ q40 q41 q42 q43 q44 q45
+  -- its pairs: those of `m` and `(n1, n3)`, `(n4, n6)`
+  have pairsF : ∀ u v, VPair F u v ↔ VPair m.β u v ∨ (u = n1 ∧ v = n3) ∨ (u = n4 ∧ v = n6) := by
+    intro u v
+    have P1 : ∀ u v, VPair (lnk2 m.β n1 n2) u v ↔ VPair m.β u v := by
+      intro u v
+      rw [vpair_lnk2 (sb 2).1 (sb 2).2.1 q52]
+      constructor
+      · rintro (e | ⟨_, hv, _, v0⟩ | ⟨_, hv, _, v0⟩)
+        · exact e
+        · rw [(sb 1).1] at hv; exact absurd hv v0
+        · rw [(sb 1).2.1] at hv; exact absurd hv v0
+      · exact Or.inl
+    have P2 : ∀ u v, VPair (lnk1 (lnk2 m.β n1 n2) n2 n3) u v ↔ VPair m.β u v ∨ (u = n1 ∧ v = n3) := by
+      intro u v
+      rw [vpair_lnk1 (by simp [lnk2, upd_apply, sb 1]), P1]
+      have : lnk2 m.β n1 n2 2 n2 = n1 := by simp [lnk2, upd_apply]
+      rw [this]
+      constructor
+      · rintro (e | ⟨hu, hv, _, _⟩)
+        · exact Or.inl e
+        · exact Or.inr ⟨hu, hv⟩
+      · rintro (e | ⟨hu, hv⟩)
+        · exact Or.inl e
+        · exact Or.inr ⟨hu, hv, by rw [hu]; exact n0.1, by rw [hv]; exact n0.2.2.1⟩
+    have P3 : ∀ u v, VPair (lnk2 (lnk1 (lnk2 m.β n1 n2) n2 n3) n4 n5) u v ↔ VPair m.β u v ∨ (u = n1 ∧ v = n3) := by
+      intro u v
+      rw [vpair_lnk2 (by simp [lnk1, lnk2, upd_apply, sb 2, q1, Ne.symm q1, q2, Ne.symm q2, q3, Ne.symm q3, q4, Ne.symm q4, q5, Ne.symm q5, q6, Ne.symm q6, q7, Ne.symm q7, q8, Ne.symm q8, q9, Ne.symm q9, q10, Ne.symm q10, q11, Ne.symm q11, q12, Ne.symm q12, q13, Ne.symm q13, q14, Ne.symm q14, q15, Ne.symm q15, q16, Ne.symm q16, q17, Ne.symm q17, q18, Ne.symm q18, q19, Ne.symm q19, q20, Ne.symm q20, q21, Ne.symm q21, q22, Ne.symm q22, q23, Ne.symm q23, q24, Ne.symm q24, q25, Ne.symm q25, q26, Ne.symm q26, q27, Ne.symm q27, q28, Ne.symm q28, q29, Ne.symm q29, q30, Ne.symm q30, q31, Ne.symm q31, q32, Ne.symm q32, q33, Ne.symm q33, q34, Ne.symm q34, q35, Ne.symm q35, q36, Ne.symm q36, q37, Ne.symm q37, q38, Ne.symm q38, q39, Ne.symm q39, q40, Ne.symm q40, q41, Ne.symm q41, q42, Ne.symm q42, q43, Ne.symm q43, q44, Ne.symm q44, q45, Ne.symm q45, q46, Ne.symm q46, q47, Ne.symm q47, q48, Ne.symm q48, q49, Ne.symm q49, q50, Ne.symm q50, q51, Ne.symm q51, q52, Ne.symm q52, q53, Ne.symm q53, q54, Ne.symm q54, q55, Ne.symm q55, q56, Ne.symm q56, q57, Ne.symm q57, q58, Ne.symm q58, q59, Ne.symm q59, q60, Ne.symm q60, q61, Ne.symm q61, q62, Ne.symm q62, q63, Ne.symm q63, q64, Ne.symm q64, q65, Ne.symm q65, q66, Ne.symm q66]) (by simp [lnk1, lnk2, upd_apply, sb 2, q1, Ne.symm q1, q2, Ne.symm q2, q3, Ne.symm q3, q4, Ne.symm q4, q5, Ne.symm q5, q6, Ne.symm q6, q7, Ne.symm q7, q8, Ne.symm q8, q9, Ne.symm q9, q10, Ne.symm q10, q11, Ne.symm q11, q12, Ne.symm q12, q13, Ne.symm q13, q14, Ne.symm q14, q15, Ne.symm q15, q16, Ne.symm q16, q17, Ne.symm q17, q18, Ne.symm q18, q19, Ne.symm q19, q20, Ne.symm q20, q21, Ne.symm q21, q22, Ne.symm q22, q23, Ne.symm q23, q24, Ne.symm q24, q25, Ne.symm q25, q26, Ne.symm q26, q27, Ne.symm q27, q28, Ne.symm q28, q29, Ne.symm q29, q30, Ne.symm q30, q31, Ne.symm q31, q32, Ne.symm q32, q33, Ne.symm q33, q34, Ne.symm q34, q35, Ne.symm q35, q36, Ne.symm q36, q37, Ne.symm q37, q38, Ne.symm q38, q39, Ne.symm q39, q40, Ne.symm q40, q41, Ne.symm q41, q42, Ne.symm q42, q43, Ne.symm q43, q44, Ne.symm q44, q45, Ne.symm q45, q46, Ne.symm q46, q47, Ne.symm q47, q48, Ne.symm q48, q49, Ne.symm q49, q50, Ne.symm q50, q51, Ne.symm q51, q52, Ne.symm q52, q53, Ne.symm q53, q54, Ne.symm q54, q55, Ne.symm q55, q56, Ne.symm q56, q57, Ne.symm q57, q58, Ne.symm q58, q59, Ne.symm q59, q60, Ne.symm q60, q61, Ne.symm q61, q62, Ne.symm q62, q63, Ne.symm q63, q64, Ne.symm q64, q65, Ne.symm q65, q66, Ne.symm q66]) q64, P2]
+      constructor
+      · rintro (e | ⟨_, hv, _, v0⟩ | ⟨_, hv, _, v0⟩)
+        · exact e
+        · exfalso; apply v0; rw [hv]; simp [lnk1, lnk2, upd_apply, sb 1, q1, Ne.symm q1, q2, Ne.symm q2, q3, Ne.symm q3, q4, Ne.symm q4, q5, Ne.symm q5, q6, Ne.symm q6, q7, Ne.symm q7, q8, Ne.symm q8, q9, Ne.symm q9, q10, Ne.symm q10, q11, Ne.symm q11, q12, Ne.symm q12, q13, Ne.symm q13, q14, Ne.symm q14, q15, Ne.symm q15, q16, Ne.symm q16, q17, Ne.symm q17, q18, Ne.symm q18, q19, Ne.symm q19, q20, Ne.symm q20, q21, Ne.symm q21, q22, Ne.symm q22, q23, Ne.symm q23, q24, Ne.symm q24, q25, Ne.symm q25, q26, Ne.symm q26, q27, Ne.symm q27, q28, Ne.symm q28, q29, Ne.symm q29, q30, Ne.symm q30, q31, Ne.symm q31, q32, Ne.symm q32, q33, Ne.symm q33, q34, Ne.symm q34, q35, Ne.symm q35, q36, Ne.symm q36, q37, Ne.symm q37, q38, Ne.symm q38, q39, Ne.symm q39, q40, Ne.symm q40, q41, Ne.symm q41, q42, Ne.symm q42, q43, Ne.symm q43, q44, Ne.symm q44, q45, Ne.symm q45, q46, Ne.symm q46, q47, Ne.symm q47, q48, Ne.symm q48, q49, Ne.symm q49, q50, Ne.symm q50, q51, Ne.symm q51, q52, Ne.symm q52, q53, Ne.symm q53, q54, Ne.symm q54, q55, Ne.symm q55, q56, Ne.symm q56, q57, Ne.symm q57, q58, Ne.symm q58, q59, Ne.symm q59, q60, Ne.symm q60, q61, Ne.symm q61, q62, Ne.symm q62, q63, Ne.symm q63, q64, Ne.symm q64, q65, Ne.symm q65, q66, Ne.symm q66]
+        · exfalso; apply v0; rw [hv]; simp [lnk1, lnk2, upd_apply, sb 1, q1, Ne.symm q1, q2, Ne.symm q2, q3, Ne.symm q3, q4, Ne.symm q4, q5, Ne.symm q5, q6, Ne.symm q6, q7, Ne.symm q7, q8, Ne.symm q8, q9, Ne.symm q9, q10, Ne.symm q10, q11, Ne.symm q11, q12, Ne.symm q12, q13, Ne.symm q13, q14, Ne.symm q14, q15, Ne.symm q15, q16, Ne.symm q16, q17, Ne.symm q17, q18, Ne.symm q18, q19, Ne.symm q19, q20, Ne.symm q20, q21, Ne.symm q21, q22, Ne.symm q22, q23, Ne.symm q23, q24, Ne.symm q24, q25, Ne.symm q25, q26, Ne.symm q26, q27, Ne.symm q27, q28, Ne.symm q28, q29, Ne.symm q29, q30, Ne.symm q30, q31, Ne.symm q31, q32, Ne.symm q32, q33, Ne.symm q33, q34, Ne.symm q34, q35, Ne.symm q35, q36, Ne.symm q36, q37, Ne.symm q37, q38, Ne.symm q38, q39, Ne.symm q39, q40, Ne.symm q40, q41, Ne.symm q41, q42, Ne.symm q42, q43, Ne.symm q43, q44, Ne.symm q44, q45, Ne.symm q45, q46, Ne.symm q46, q47, Ne.symm q47, q48, Ne.symm q48, q49, Ne.symm q49, q50, Ne.symm q50, q51, Ne.symm q51, q52, Ne.symm q52, q53, Ne.symm q53, q54, Ne.symm q54, q55, Ne.symm q55, q56, Ne.symm q56, q57, Ne.symm q57, q58, Ne.symm q58, q59, Ne.symm q59, q60, Ne.symm q60, q61, Ne.symm q61, q62, Ne.symm q62, q63, Ne.symm q63, q64, Ne.symm q64, q65, Ne.symm q65, q66, Ne.symm q66]
+      · exact Or.inl
+    rw [hF, vpair_lnk1 (by simp [lnk1, lnk2, upd_apply, sb 1, q1, Ne.symm q1, q2, Ne.symm q2, q3, Ne.symm q3, q4, Ne.symm q4, q5, Ne.symm q5, q6, Ne.symm q6, q7, Ne.symm q7, q8, Ne.symm q8, q9, Ne.symm q9, q10, Ne.symm q10, q11, Ne.symm q11, q12, Ne.symm q12, q13, Ne.symm q13, q14, Ne.symm q14, q15, Ne.symm q15, q16, Ne.symm q16, q17, Ne.symm q17, q18, Ne.symm q18, q19, Ne.symm q19, q20, Ne.symm q20, q21, Ne.symm q21, q22, Ne.symm q22, q23, Ne.symm q23, q24, Ne.symm q24, q25, Ne.symm q25, q26, Ne.symm q26, q27, Ne.symm q27, q28, Ne.symm q28, q29, Ne.symm q29, q30, Ne.symm q30, q31, Ne.symm q31, q32, Ne.symm q32, q33, Ne.symm q33, q34, Ne.symm q34, q35, Ne.symm q35, q36, Ne.symm q36, q37, Ne.symm q37, q38, Ne.symm q38, q39, Ne.symm q39, q40, Ne.symm q40, q41, Ne.symm q41, q42, Ne.symm q42, q43, Ne.symm q43, q44, Ne.symm q44, q45, Ne.symm q45, q46, Ne.symm q46, q47, Ne.symm q47, q48, Ne.symm q48, q49, Ne.symm q49, q50, Ne.symm q50, q51, Ne.symm q51, q52, Ne.symm q52, q53, Ne.symm q53, q54, Ne.symm q54, q55, Ne.symm q55, q56, Ne.symm q56, q57, Ne.symm q57, q58, Ne.symm q58, q59, Ne.symm q59, q60, Ne.symm q60, q61, Ne.symm q61, q62, Ne.symm q62, q63, Ne.symm q63, q64, Ne.symm q64, q65, Ne.symm q65, q66, Ne.symm q66]), P3]
+    have : lnk2 (lnk1 (lnk2 m.β n1 n2) n2 n3) n4 n5 2 n5 = n4 := by simp [lnk1, lnk2, upd_apply]
+    rw [this]
+    constructor
+    · rintro ((e | e) | ⟨hu, hv, _, _⟩)
+      · exact Or.inl e
+      · exact Or.inr (Or.inl e)
+      · exact Or.inr (Or.inr ⟨hu, hv⟩)
+    · rintro (e | e | ⟨hu, hv⟩)
+      · exact Or.inl (Or.inl e)
+      · exact Or.inl (Or.inr e)
+      · exact Or.inr ⟨hu, hv, by rw [hu]; exact n0.2.2.2.1, by rw [hv]; exact n0.2.2.2.2.2⟩
+  have noSpare : ∀ u v, VPair m.β u v → ∀ t, t ∈ [n1, n2, n3, n4, n5, n6] → u ≠ t ∧ v ≠ t := by
+    rintro u v ⟨zz, e2, e1, _, _⟩ t ht
+    rw [← e2, ← e1]
+    exact ⟨beta_ne_spare hwf (hs t ht) 2 zz, beta_ne_spare hwf (hs t ht) 1 zz⟩
+  -- the old darts keep their vertices
+  have oldconn : ∀ x y, x ∉ [n1, n3, n4, n6] → Conn (VPair F) x y → VC m x y ∧ y ∉ [n1, n3, n4, n6] := by
+    intro x y hx hc
+    induction hc with
+    | refl => exact ⟨.refl _, hx⟩
+    | fwd _ ed ih =>
+        rename_i y' y''
+        rcases (pairsF _ _).1 ed with ed | ⟨hu, _⟩ | ⟨hu, _⟩
+        · refine ⟨.fwd ih.1 ed, ?_⟩
+          have k := noSpare _ _ ed
+          simp only [List.mem_cons, List.mem_nil_iff, not_or, or_false]
+          exact ⟨(k n1 (by simp)).2, (k n3 (by simp)).2, (k n4 (by simp)).2, (k n6 (by simp)).2⟩
+        · exact absurd (by simp [hu]) ih.2
+        · exact absurd (by simp [hu]) ih.2
+    | bwd _ ed ih =>
+        rename_i y' y''
+        rcases (pairsF _ _).1 ed with ed | ⟨_, hv⟩ | ⟨_, hv⟩
+        · refine ⟨.bwd ih.1 ed, ?_⟩
+          have k := noSpare _ _ ed
+          simp only [List.mem_cons, List.mem_nil_iff, not_or, or_false]
+          exact ⟨(k n1 (by simp)).1, (k n3 (by simp)).1, (k n4 (by simp)).1, (k n6 (by simp)).1⟩
+        · exact absurd (by simp [hv]) ih.2
+        · exact absurd (by simp [hv]) ih.2
+  have newconn : ∀ y, (Conn (VPair F) n1 y → y = n1 ∨ y = n3) ∧ (Conn (VPair F) n6 y → y = n4 ∨ y = n6) := by
+    intro y
+    constructor
+    · intro hc
+      induction hc with
+      | refl => exact Or.inl rfl
+      | fwd _ ed ih =>
+          rcases (pairsF _ _).1 ed with ed | ⟨_, hv⟩ | ⟨hu, _⟩
+          · have k := noSpare _ _ ed
+            rcases ih with ih | ih
+            · exact absurd ih (k n1 (by simp)).1
+            · exact absurd ih (k n3 (by simp)).1
+          · exact Or.inr hv
+          · rcases ih with ih | ih
+            · rw [ih] at hu; exact absurd hu q54
+            · rw [ih] at hu; exact absurd hu q61
+      | bwd _ ed ih =>
+          rcases (pairsF _ _).1 ed with ed | ⟨hu, _⟩ | ⟨_, hv⟩
+          · have k := noSpare _ _ ed
+            rcases ih with ih | ih
+            · exact absurd ih (k n1 (by simp)).2
+            · exact absurd ih (k n3 (by simp)).2
+          · exact Or.inl hu
+          · rcases ih with ih | ih
+            · rw [ih] at hv; exact absurd hv q56
+            · rw [ih] at hv; exact absurd hv q63
+    · intro hc
+      induction hc with
+      | refl => exact Or.inr rfl
+      | fwd _ ed ih =>
+          rcases (pairsF _ _).1 ed with ed | ⟨hu, _⟩ | ⟨_, hv⟩
+          · have k := noSpare _ _ ed
+            rcases ih with ih | ih
+            · exact absurd ih (k n4 (by simp)).1
+            · exact absurd ih (k n6 (by simp)).1
+          · rcases ih with ih | ih
+            · rw [ih] at hu; exact absurd hu (Ne.symm q54)
+            · rw [ih] at hu; exact absurd hu (Ne.symm q56)
+          · exact Or.inr hv
+      | bwd _ ed ih =>
+          rcases (pairsF _ _).1 ed with ed | ⟨_, hv⟩ | ⟨hu, _⟩
+          · have k := noSpare _ _ ed
+            rcases ih with ih | ih
+            · exact absurd ih (k n4 (by simp)).2
+            · exact absurd ih (k n6 (by simp)).2
+          · rcases ih with ih | ih
+            · rw [ih] at hv; exact absurd hv (Ne.symm q61)
+            · rw [ih] at hv; exact absurd hv (Ne.symm q63)
+          · exact Or.inl hu
+  -- the reads
+  obtain ⟨_, h⟩ := HC.C15.rB_ok h
+  rw [b4, Fe 2] at h
+  obtain ⟨lfa, m5, r5, h⟩ := run_bind_ok h
+  have I5 := inv_attrOnly (ao_takeFaceAnchor cfg m.n e) I4 r5
+  have b5 : m5.β = F := by rw [β_of_sameTopo (AttrOnly.run_ok (ao_takeFaceAnchor cfg m.n e) r5)]; exact b4
+  obtain ⟨fc5', at5'⟩ := keeps0_takeFaceAnchor cfg m.n e m4 m5 lfa r5
+  obtain ⟨rfa, m6, r6, h⟩ := run_bind_ok h
+  have I6 := inv_attrOnly (ao_takeFaceAnchor cfg m.n (m.β 2 e)) I5 r6
+  have b6 : m6.β = F := by rw [β_of_sameTopo (AttrOnly.run_ok (ao_takeFaceAnchor cfg m.n _) r6)]; exact b5
+  obtain ⟨fc6', at6'⟩ := keeps0_takeFaceAnchor cfg m.n (m.β 2 e) m5 m6 rfa r6
+  have fc6 : m6.fc = 0 := by rw [fc6', fc5']; exact fc4
+  have at6 : ∀ x, m6.att 0 x = m.att 0 x := fun x => by rw [at6', at5', at4]
+  obtain ⟨ea, _, h⟩ := ro_bind_ok (ro_peekEdgeAnchor cfg e) h
+  obtain ⟨_, h⟩ := HC.C15.rB_ok h
+  obtain ⟨_, h⟩ := HC.C15.rB_ok h
+  obtain ⟨_, h⟩ := HC.C15.rB_ok h
+  obtain ⟨_, h⟩ := HC.C15.rB_ok h
+  rw [b6, Fe 0, Fe 1, Fr 0, Fr 1] at h
+  obtain ⟨vid1, hv1, h⟩ := ro_bind_ok (readOnly_vertexId2 _ _) h
+  obtain ⟨vid2, hv2, h⟩ := ro_bind_ok (readOnly_vertexId2 _ _) h
+  obtain ⟨newV, hmid, h⟩ := ro_bind_ok (ro_midpointOrRetry _ _) h
+  obtain ⟨vid, hvid, h⟩ := ro_bind_ok (readOnly_vertexId2 _ _) h
+  obtain ⟨old, m7, r7, h⟩ := run_bind_ok h
+  have n6' : m6.n = m.n := I6.n_eq
+  -- the identifiers read
+  have four : ∀ x, x ∈ [e, m.β 2 e, m.β 1 e, m.β 0 e, m.β 1 (m.β 2 e), m.β 0 (m.β 2 e)] → x ∉ [n1, n3, n4, n6] := by
+    intro x hx
+    simp only [List.mem_cons, List.mem_nil_iff, or_false] at hx
+    rcases hx with rfl | rfl | rfl | rfl | rfl | rfl <;> simp [q1, Ne.symm q1, q2, Ne.symm q2, q3, Ne.symm q3, q4, Ne.symm q4, q5, Ne.symm q5, q6, Ne.symm q6, q7, Ne.symm q7, q8, Ne.symm q8, q9, Ne.symm q9, q10, Ne.symm q10, q11, Ne.symm q11, q12, Ne.symm q12, q13, Ne.symm q13, q14, Ne.symm q14, q15, Ne.symm q15, q16, Ne.symm q16, q17, Ne.symm q17, q18, Ne.symm q18, q19, Ne.symm q19, q20, Ne.symm q20, q21, Ne.symm q21, q22, Ne.symm q22, q23, Ne.symm q23, q24, Ne.symm q24, q25, Ne.symm q25, q26, Ne.symm q26, q27, Ne.symm q27, q28, Ne.symm q28, q29, Ne.symm q29, q30, Ne.symm q30, q31, Ne.symm q31, q32, Ne.symm q32, q33, Ne.symm q33, q34, Ne.symm q34, q35, Ne.symm q35, q36, Ne.symm q36, q37, Ne.symm q37, q38, Ne.symm q38, q39, Ne.symm q39, q40, Ne.symm q40, q41, Ne.symm q41, q42, Ne.symm q42, q43, Ne.symm q43, q44, Ne.symm q44, q45, Ne.symm q45, q46, Ne.symm q46, q47, Ne.symm q47, q48, Ne.symm q48, q49, Ne.symm q49, q50, Ne.symm q50, q51, Ne.symm q51, q52, Ne.symm q52, q53, Ne.symm q53, q54, Ne.symm q54, q55, Ne.symm q55, q56, Ne.symm q56, q57, Ne.symm q57, q58, Ne.symm q58, q59, Ne.symm q59, q60, Ne.symm q60, q61, Ne.symm q61, q62, Ne.symm q62, q63, Ne.symm q63, q64, Ne.symm q64, q65, Ne.symm q65, q66, Ne.symm q66]
+  have oldid : ∀ x, x ≠ 0 → x < m.n → x ∉ [n1, n3, n4, n6] → cellId m6 .vertex x = cellId m .vertex x := by
+    intro x x0 xn hx
+    refine vid_congr hwf I6.wf n6' x0 xn (fun y _ => ?_)
+    rw [show VC m6 x y = Conn (VPair F) x y by unfold VC; rw [b6]]
+    exact ⟨fun hc => (oldconn x y hx hc).1,
+      Conn.mono (fun u v ed => Conn.fwd (.refl _) ((pairsF u v).2 (Or.inl ed)))⟩
+  have ev1 : vid1 = cellId m .vertex e := by
+    have := (C03_vertexId2_min I6.wf he.1 (by rw [n6']; exact hn)).1
+    rw [n6'] at this
+    rw [run_inj hv1 this, oldid e he.1 hn (four e (by simp))]
+  have ev2 : vid2 = cellId m .vertex (m.β 1 e) := by
+    have := (C03_vertexId2_min I6.wf a0 (by rw [n6']; exact ha)).1
+    rw [n6'] at this
+    rw [run_inj hv2 this, oldid _ a0 ha (four _ (by simp))]
+  have evid : vid = cellId m6 .vertex n1 := by
+    have := (C03_vertexId2_min I6.wf n0.1 (by rw [n6']; exact s1.1.2.1)).1
+    rw [n6'] at this
+    exact run_inj hvid this
+  have hval : ∃ va vb, m6.att 0 vid1 = some va ∧ m6.att 0 vid2 = some vb ∧ newV = avgVal va vb := by
+    unfold midpointOrRetry at hmid
+    obtain ⟨_, hmid⟩ := rA_ok hmid
+    obtain ⟨_, hmid⟩ := rA_ok hmid
+    cases ha' : m6.att 0 vid1 <;> cases hb' : m6.att 0 vid2 <;> simp [ha', hb'] at hmid
+    exact ⟨_, _, rfl, rfl, hmid.symm⟩
+  obtain ⟨va, vb, hva, hvb, hnv⟩ := hval
+  rw [hnv] at r7
+  rw [at6, ev1] at hva
+  rw [at6, ev2] at hvb
+  -- the write
+  have I7 := inv_attrOnly (ao_writeVtx vid (avgVal va vb)) I6 r7
+  have e7 : m7 = m6.setA 0 vid (some (avgVal va vb)) ∧ m6.okA 0 vid = true := by
+    unfold writeVtx at r7
+    obtain ⟨hok, r7⟩ := rA_ok r7
+    obtain ⟨_, r7⟩ := wA_ok r7
+    simp at r7
+    exact ⟨r7.2.symm, hok⟩
+  have b7 : m7.β = F := by rw [e7.1]; exact b6
+  have fc7 : m7.fc = 0 := by rw [e7.1]; exact fc6
+  have st67 : SameTopo m6 m7 := by rw [e7.1]; exact SameTopo.setA _ _ _ _
+  have vc7 : ∀ x y, VC m7 x y ↔ Conn (VPair F) x y := fun x y => by unfold VC; rw [b7]
+  -- the new vertex holds the midpoint, the vertex of `n6` nothing
+  have v7n1 : vval m7 n1 = some (avgVal va vb) := by
+    unfold vval
+    rw [vid_of_sameTopo st67, ← evid, e7.1, Map.att_setA]; simp [e7.2]
+  have v7n6 : vval m7 n6 = none := by
+    obtain ⟨k0, kn, kc⟩ := vc_vid I6.wf n0.2.2.2.2.2 (by rw [n6']; exact s6.1.2.1)
+    obtain ⟨j0, jn, jc⟩ := vc_vid I6.wf n0.1 (by rw [n6']; exact s1.1.2.1)
+    have kk := (newconn _).2 (by have := kc; unfold VC at this; rw [b6] at this; exact this)
+    have jj := (newconn _).1 (by have := jc; unfold VC at this; rw [b6] at this; exact this)
+    have ne : cellId m6 .vertex n6 ≠ vid := by
+      rw [evid]
+      rcases kk with kk | kk <;> rcases jj with jj | jj <;> rw [kk, jj] <;> simp [q1, Ne.symm q1, q2, Ne.symm q2, q3, Ne.symm q3, q4, Ne.symm q4, q5, Ne.symm q5, q6, Ne.symm q6, q7, Ne.symm q7, q8, Ne.symm q8, q9, Ne.symm q9, q10, Ne.symm q10, q11, Ne.symm q11, q12, Ne.symm q12, q13, Ne.symm q13, q14, Ne.symm q14, q15, Ne.symm q15, q16, Ne.symm q16, q17, Ne.symm q17, q18, Ne.symm q18, q19, Ne.symm q19, q20, Ne.symm q20, q21, Ne.symm q21, q22, Ne.symm q22, q23, Ne.symm q23, q24, Ne.symm q24, q25, Ne.symm q25, q26, Ne.symm q26, q27, Ne.symm q27, q28, Ne.symm q28, q29, Ne.symm q29, q30, Ne.symm q30, q31, Ne.symm q31, q32, Ne.symm q32, q33, Ne.symm q33, q34, Ne.symm q34, q35, Ne.symm q35, q36, Ne.symm q36, q37, Ne.symm q37, q38, Ne.symm q38, q39, Ne.symm q39, q40, Ne.symm q40, q41, Ne.symm q41, q42, Ne.symm q42, q43, Ne.symm q43, q44, Ne.symm q44, q45, Ne.symm q45, q46, Ne.symm q46, q47, Ne.symm q47, q48, Ne.symm q48, q49, Ne.symm q49, q50, Ne.symm q50, q51, Ne.symm q51, q52, Ne.symm q52, q53, Ne.symm q53, q54, Ne.symm q54, q55, Ne.symm q55, q56, Ne.symm q56, q57, Ne.symm q57, q58, Ne.symm q58, q59, Ne.symm q59, q60, Ne.symm q60, q61, Ne.symm q61, q62, Ne.symm q62, q63, Ne.symm q63, q64, Ne.symm q64, q65, Ne.symm q65, q66, Ne.symm q66]
+    unfold vval
+    rw [vid_of_sameTopo st67, e7.1, Map.att_setA]
+    simp only [ne, Ne.symm ne, and_false, false_and, if_false]
+    rw [at6]
+    rcases kk with kk | kk <;> rw [kk]
+    · exact hnone n4 (by simp)
+    · exact hnone n6 (by simp)
+  -- the two end points of the edge are different vertices
+  have hdiff : ¬ VC m7 e (m7.β 2 e) := by
+    rw [b7, Fe 2, vc7]
+    intro hc
+    have := (oldconn _ _ (four e (by simp)) hc).1
+    exact hends ((vid_of_vc hwf he.1 hn hr0 hr).2 this)
+  -- the unsews and the two 2-sews: no dart sees another value
+  obtain ⟨_, m8, r8, h⟩ := run_bind_ok h
+  obtain ⟨I8, fc8, b8, v8⟩ := twoUnsew_step cfg hL I7 fc7 Le (by rw [b7, Fe 1]; exact a0)
+    (by rw [b7, Fe 2, Fr 1]; exact c0) hdiff r8
+  obtain ⟨_, m9, r9, h⟩ := run_bind_ok h
+  obtain ⟨I9, fc9, _, v9⟩ := unsew_step cfg hL I8 fc8 Le r9
+  have b9 := unsew_step_beta cfg r9
+  obtain ⟨_, m10, r10, h⟩ := run_bind_ok h
+  obtain ⟨I10, fc10, _, v10⟩ := unsew_step cfg hL I9 fc9 La r10
+  have b10 := unsew_step_beta cfg r10
+  obtain ⟨_, m11, r11, h⟩ := run_bind_ok h
+  obtain ⟨I11, fc11, _, v11⟩ := unsew_step cfg hL I10 fc10 Lr r11
+  have b11 := unsew_step_beta cfg r11
+  obtain ⟨_, m12, r12, h⟩ := run_bind_ok h
+  obtain ⟨I12, fc12, _, v12⟩ := unsew_step cfg hL I11 fc11 Lc r12
+  have b12 := unsew_step_beta cfg r12
+  have B12 : m12.β = unl1 (unl1 (unl1 (unl1 (unl2 F e) e) (m.β 1 e)) (m.β 2 e)) (m.β 1 (m.β 2 e)) := by
+    rw [b12, b11, b10, b9, b8, b7]
+  obtain ⟨_, m13, r13, h⟩ := run_bind_ok h
+  obtain ⟨I13, fc13, b13, v13⟩ := twoSew_free_step cfg I12 fc12 Le L6 q11
+    (by rw [B12]; simp [unl1_one', unl2_one', q1, Ne.symm q1, q2, Ne.symm q2, q3, Ne.symm q3, q4, Ne.symm q4, q5, Ne.symm q5, q6, Ne.symm q6, q7, Ne.symm q7, q8, Ne.symm q8, q9, Ne.symm q9, q10, Ne.symm q10, q11, Ne.symm q11, q12, Ne.symm q12, q13, Ne.symm q13, q14, Ne.symm q14, q15, Ne.symm q15, q16, Ne.symm q16, q17, Ne.symm q17, q18, Ne.symm q18, q19, Ne.symm q19, q20, Ne.symm q20, q21, Ne.symm q21, q22, Ne.symm q22, q23, Ne.symm q23, q24, Ne.symm q24, q25, Ne.symm q25, q26, Ne.symm q26, q27, Ne.symm q27, q28, Ne.symm q28, q29, Ne.symm q29, q30, Ne.symm q30, q31, Ne.symm q31, q32, Ne.symm q32, q33, Ne.symm q33, q34, Ne.symm q34, q35, Ne.symm q35, q36, Ne.symm q36, q37, Ne.symm q37, q38, Ne.symm q38, q39, Ne.symm q39, q40, Ne.symm q40, q41, Ne.symm q41, q42, Ne.symm q42, q43, Ne.symm q43, q44, Ne.symm q44, q45, Ne.symm q45, q46, Ne.symm q46, q47, Ne.symm q47, q48, Ne.symm q48, q49, Ne.symm q49, q50, Ne.symm q50, q51, Ne.symm q51, q52, Ne.symm q52, q53, Ne.symm q53, q54, Ne.symm q54, q55, Ne.symm q55, q56, Ne.symm q56, q57, Ne.symm q57, q58, Ne.symm q58, q59, Ne.symm q59, q60, Ne.symm q60, q61, Ne.symm q61, q62, Ne.symm q62, q63, Ne.symm q63, q64, Ne.symm q64, q65, Ne.symm q65, q66, Ne.symm q66])
+    (by rw [B12]; simp [unl1_one', unl2_one', F1, q1, Ne.symm q1, q2, Ne.symm q2, q3, Ne.symm q3, q4, Ne.symm q4, q5, Ne.symm q5, q6, Ne.symm q6, q7, Ne.symm q7, q8, Ne.symm q8, q9, Ne.symm q9, q10, Ne.symm q10, q11, Ne.symm q11, q12, Ne.symm q12, q13, Ne.symm q13, q14, Ne.symm q14, q15, Ne.symm q15, q16, Ne.symm q16, q17, Ne.symm q17, q18, Ne.symm q18, q19, Ne.symm q19, q20, Ne.symm q20, q21, Ne.symm q21, q22, Ne.symm q22, q23, Ne.symm q23, q24, Ne.symm q24, q25, Ne.symm q25, q26, Ne.symm q26, q27, Ne.symm q27, q28, Ne.symm q28, q29, Ne.symm q29, q30, Ne.symm q30, q31, Ne.symm q31, q32, Ne.symm q32, q33, Ne.symm q33, q34, Ne.symm q34, q35, Ne.symm q35, q36, Ne.symm q36, q37, Ne.symm q37, q38, Ne.symm q38, q39, Ne.symm q39, q40, Ne.symm q40, q41, Ne.symm q41, q42, Ne.symm q42, q43, Ne.symm q43, q44, Ne.symm q44, q45, Ne.symm q45, q46, Ne.symm q46, q47, Ne.symm q47, q48, Ne.symm q48, q49, Ne.symm q49, q50, Ne.symm q50, q51, Ne.symm q51, q52, Ne.symm q52, q53, Ne.symm q53, q54, Ne.symm q54, q55, Ne.symm q55, q56, Ne.symm q56, q57, Ne.symm q57, q58, Ne.symm q58, q59, Ne.symm q59, q60, Ne.symm q60, q61, Ne.symm q61, q62, Ne.symm q62, q63, Ne.symm q63, q64, Ne.symm q64, q65, Ne.symm q65, q66, Ne.symm q66]) r13
+  obtain ⟨_, m14, r14, h⟩ := run_bind_ok h
+  obtain ⟨I14, fc14, b14, v14⟩ := twoSew_free_step cfg I13 fc13 Lr L3 q18
+    (by rw [b13, B12]; simp [lnk2_one', unl1_one', unl2_one', q1, Ne.symm q1, q2, Ne.symm q2, q3, Ne.symm q3, q4, Ne.symm q4, q5, Ne.symm q5, q6, Ne.symm q6, q7, Ne.symm q7, q8, Ne.symm q8, q9, Ne.symm q9, q10, Ne.symm q10, q11, Ne.symm q11, q12, Ne.symm q12, q13, Ne.symm q13, q14, Ne.symm q14, q15, Ne.symm q15, q16, Ne.symm q16, q17, Ne.symm q17, q18, Ne.symm q18, q19, Ne.symm q19, q20, Ne.symm q20, q21, Ne.symm q21, q22, Ne.symm q22, q23, Ne.symm q23, q24, Ne.symm q24, q25, Ne.symm q25, q26, Ne.symm q26, q27, Ne.symm q27, q28, Ne.symm q28, q29, Ne.symm q29, q30, Ne.symm q30, q31, Ne.symm q31, q32, Ne.symm q32, q33, Ne.symm q33, q34, Ne.symm q34, q35, Ne.symm q35, q36, Ne.symm q36, q37, Ne.symm q37, q38, Ne.symm q38, q39, Ne.symm q39, q40, Ne.symm q40, q41, Ne.symm q41, q42, Ne.symm q42, q43, Ne.symm q43, q44, Ne.symm q44, q45, Ne.symm q45, q46, Ne.symm q46, q47, Ne.symm q47, q48, Ne.symm q48, q49, Ne.symm q49, q50, Ne.symm q50, q51, Ne.symm q51, q52, Ne.symm q52, q53, Ne.symm q53, q54, Ne.symm q54, q55, Ne.symm q55, q56, Ne.symm q56, q57, Ne.symm q57, q58, Ne.symm q58, q59, Ne.symm q59, q60, Ne.symm q60, q61, Ne.symm q61, q62, Ne.symm q62, q63, Ne.symm q63, q64, Ne.symm q64, q65, Ne.symm q65, q66, Ne.symm q66])
+    (by rw [b13, B12]; simp [lnk2_one', unl1_one', unl2_one', F1, q1, Ne.symm q1, q2, Ne.symm q2, q3, Ne.symm q3, q4, Ne.symm q4, q5, Ne.symm q5, q6, Ne.symm q6, q7, Ne.symm q7, q8, Ne.symm q8, q9, Ne.symm q9, q10, Ne.symm q10, q11, Ne.symm q11, q12, Ne.symm q12, q13, Ne.symm q13, q14, Ne.symm q14, q15, Ne.symm q15, q16, Ne.symm q16, q17, Ne.symm q17, q18, Ne.symm q18, q19, Ne.symm q19, q20, Ne.symm q20, q21, Ne.symm q21, q22, Ne.symm q22, q23, Ne.symm q23, q24, Ne.symm q24, q25, Ne.symm q25, q26, Ne.symm q26, q27, Ne.symm q27, q28, Ne.symm q28, q29, Ne.symm q29, q30, Ne.symm q30, q31, Ne.symm q31, q32, Ne.symm q32, q33, Ne.symm q33, q34, Ne.symm q34, q35, Ne.symm q35, q36, Ne.symm q36, q37, Ne.symm q37, q38, Ne.symm q38, q39, Ne.symm q39, q40, Ne.symm q40, q41, Ne.symm q41, q42, Ne.symm q42, q43, Ne.symm q43, q44, Ne.symm q44, q45, Ne.symm q45, q46, Ne.symm q46, q47, Ne.symm q47, q48, Ne.symm q48, q49, Ne.symm q49, q50, Ne.symm q50, q51, Ne.symm q51, q52, Ne.symm q52, q53, Ne.symm q53, q54, Ne.symm q54, q55, Ne.symm q55, q56, Ne.symm q56, q57, Ne.symm q57, q58, Ne.symm q58, q59, Ne.symm q59, q60, Ne.symm q60, q61, Ne.symm q61, q62, Ne.symm q62, q63, Ne.symm q63, q64, Ne.symm q64, q65, Ne.symm q65, q66, Ne.symm q66]) r14
+  have B14 : m14.β = lnk2 (lnk2 (unl1 (unl1 (unl1 (unl1 (unl2 F e) e) (m.β 1 e)) (m.β 2 e)) (m.β 1 (m.β 2 e))) e n6)
+      (m.β 2 e) n3 := by rw [b14, b13, B12]
+  have V14 : ∀ x, x ≠ 0 → x < m.n → vval m14 x = vval m7 x := fun x x0 xn => by
+    rw [v14 x x0 xn, v13 x x0 xn, v12 x x0 xn, v11 x x0 xn, v10 x x0 xn, v9 x x0 xn, v8 x x0 xn]
+  -- β2 and the two pairs of the new vertex before the eight 1-sews
+  have H2 : m14.β 2 e = n6 ∧ m14.β 2 n1 = n2 ∧ m14.β 2 n3 = m.β 2 e ∧ m14.β 2 (m.β 2 e) = n3 ∧ m14.β 2 n4 = n5 ∧
+      m14.β 2 n6 = e ∧ m14.β 2 n2 = n1 ∧ m14.β 2 n5 = n4 := by
+    rw [B14]
+    simp [lnk2_two', unl1_two', unl2_two', Fe 2, F2, q1, Ne.symm q1, q2, Ne.symm q2, q3, Ne.symm q3, q4, Ne.symm q4, q5, Ne.symm q5, q6, Ne.symm q6, q7, Ne.symm q7, q8, Ne.symm q8, q9, Ne.symm q9, q10, Ne.symm q10, q11, Ne.symm q11, q12, Ne.symm q12, q13, Ne.symm q13, q14, Ne.symm q14, q15, Ne.symm q15, q16, Ne.symm q16, q17, Ne.symm q17, q18, Ne.symm q18, q19, Ne.symm q19, q20, Ne.symm q20, q21, Ne.symm q21, q22, Ne.symm q22, q23, Ne.symm q23, q24, Ne.symm q24, q25, Ne.symm q25, q26, Ne.symm q26, q27, Ne.symm q27, q28, Ne.symm q28, q29, Ne.symm q29, q30, Ne.symm q30, q31, Ne.symm q31, q32, Ne.symm q32, q33, Ne.symm q33, q34, Ne.symm q34, q35, Ne.symm q35, q36, Ne.symm q36, q37, Ne.symm q37, q38, Ne.symm q38, q39, Ne.symm q39, q40, Ne.symm q40, q41, Ne.symm q41, q42, Ne.symm q42, q43, Ne.symm q43, q44, Ne.symm q44, q45, Ne.symm q45, q46, Ne.symm q46, q47, Ne.symm q47, q48, Ne.symm q48, q49, Ne.symm q49, q50, Ne.symm q50, q51, Ne.symm q51, q52, Ne.symm q52, q53, Ne.symm q53, q54, Ne.symm q54, q55, Ne.symm q55, q56, Ne.symm q56, q57, Ne.symm q57, q58, Ne.symm q58, q59, Ne.symm q59, q60, Ne.symm q60, q61, Ne.symm q61, q62, Ne.symm q62, q63, Ne.symm q63, q64, Ne.symm q64, q65, Ne.symm q65, q66, Ne.symm q66]
+  have H1 : m14.β 1 n2 = n3 ∧ m14.β 1 n5 = n6 := by
+    rw [B14]
+    simp [lnk2_one', unl1_one', unl2_one', F1, q1, Ne.symm q1, q2, Ne.symm q2, q3, Ne.symm q3, q4, Ne.symm q4, q5, Ne.symm q5, q6, Ne.symm q6, q7, Ne.symm q7, q8, Ne.symm q8, q9, Ne.symm q9, q10, Ne.symm q10, q11, Ne.symm q11, q12, Ne.symm q12, q13, Ne.symm q13, q14, Ne.symm q14, q15, Ne.symm q15, q16, Ne.symm q16, q17, Ne.symm q17, q18, Ne.symm q18, q19, Ne.symm q19, q20, Ne.symm q20, q21, Ne.symm q21, q22, Ne.symm q22, q23, Ne.symm q23, q24, Ne.symm q24, q25, Ne.symm q25, q26, Ne.symm q26, q27, Ne.symm q27, q28, Ne.symm q28, q29, Ne.symm q29, q30, Ne.symm q30, q31, Ne.symm q31, q32, Ne.symm q32, q33, Ne.symm q33, q34, Ne.symm q34, q35, Ne.symm q35, q36, Ne.symm q36, q37, Ne.symm q37, q38, Ne.symm q38, q39, Ne.symm q39, q40, Ne.symm q40, q41, Ne.symm q41, q42, Ne.symm q42, q43, Ne.symm q43, q44, Ne.symm q44, q45, Ne.symm q45, q46, Ne.symm q46, q47, Ne.symm q47, q48, Ne.symm q48, q49, Ne.symm q49, q50, Ne.symm q50, q51, Ne.symm q51, q52, Ne.symm q52, q53, Ne.symm q53, q54, Ne.symm q54, q55, Ne.symm q55, q56, Ne.symm q56, q57, Ne.symm q57, q58, Ne.symm q58, q59, Ne.symm q59, q60, Ne.symm q60, q61, Ne.symm q61, q62, Ne.symm q62, q63, Ne.symm q63, q64, Ne.symm q64, q65, Ne.symm q65, q66, Ne.symm q66]
+  -- the eight 1-sews
+  obtain ⟨_, m15, r15, h⟩ := run_bind_ok h
+  obtain ⟨I15, fc15, b15, mo15, _, _, _, _⟩ := sew_step cfg hL I14 fc14 Le L1 r15
+  obtain ⟨_, m16, r16, h⟩ := run_bind_ok h
+  obtain ⟨I16, fc16, b16, mo16, _, _, k16, _⟩ := sew_step cfg hL I15 fc15 L1 Lb r16
+  obtain ⟨_, m17, r17, h⟩ := run_bind_ok h
+  obtain ⟨I17, fc17, b17, mo17, _, _, k17, _⟩ := sew_step cfg hL I16 fc16 L3 La r17
+  obtain ⟨_, m18, r18, h⟩ := run_bind_ok h
+  obtain ⟨I18, fc18, b18, mo18, _, _, k18, _⟩ := sew_step cfg hL I17 fc17 La L2 r18
+  obtain ⟨_, m19, r19, h⟩ := run_bind_ok h
+  obtain ⟨I19, fc19, b19, mo19, _, _, _, w19⟩ := sew_step cfg hL I18 fc18 Lr L4 r19
+  obtain ⟨_, m20, r20, h⟩ := run_bind_ok h
+  obtain ⟨I20, fc20, b20, mo20, _, _, k20, _⟩ := sew_step cfg hL I19 fc19 L4 Ld r20
+  obtain ⟨_, m21, r21, h⟩ := run_bind_ok h
+  obtain ⟨I21, fc21, b21, mo21, _, _, k21, _⟩ := sew_step cfg hL I20 fc20 L6 Lc r21
+  obtain ⟨_, m22, r22, h⟩ := run_bind_ok h
+  obtain ⟨I22, fc22, b22, mo22, _, _, k22, _⟩ := sew_step cfg hL I21 fc21 Lc L5 r22
+  -- the anchors
+  obtain ⟨_, m23, r23, h⟩ := run_bind_ok h
+  obtain ⟨_, m24, r24, h⟩ := run_bind_ok h
+  have st23 := AttrOnly.run_ok (ao_spreadFaceAnchor cfg m.n lfa n1 n2) r23
+  have st24 := AttrOnly.run_ok (ao_spreadFaceAnchor cfg m.n rfa n4 n5) r24
+  have st25 := AttrOnly.run_ok (ao_spreadEdgeAnchor cfg m.n ea n1) h
+  obtain ⟨_, at23⟩ := keeps0_spreadFaceAnchor cfg m.n lfa n1 n2 m22 m23 _ r23
+  obtain ⟨_, at24⟩ := keeps0_spreadFaceAnchor cfg m.n rfa n4 n5 m23 m24 _ r24
+  obtain ⟨_, at25⟩ := keeps0_spreadEdgeAnchor cfg m.n ea n1 m24 m' _ h
+  have stF : SameTopo m22 m' := (st23.trans st24).trans st25
+  have attF : ∀ x, m'.att 0 x = m22.att 0 x := fun x => by rw [at25, at24, at23]
+  -- the final colouring
+  obtain ⟨hcid, ⟨c3, c4, c6⟩, c2b, c5d, _, _, hmem⟩ :=
+    C15_cutInner_vertices cfg m m' e n1 n2 n3 n4 n5 n6 hwf he h0 hr0 htl hb htr hd hs hnd
+  have hw' : WF 3 m' := I22.wf.sameTopo stF
+  have hn' : m'.n = m.n := by rw [stF.n]; exact I22.n_eq
+  obtain ⟨K, hKdef⟩ : ∃ K : Nat → Nat, K = fun x => cellId m' .vertex x := ⟨_, rfl⟩
+  have Kx : ∀ x, K x = cellId m' .vertex x := fun x => by rw [hKdef]
+  have hK22 : ∀ x y, x ≠ 0 → x < m.n → y ≠ 0 → y < m.n → VC m22 x y → K x = K y := by
+    intro x y x0 xn y0 yn hc
+    rw [Kx, Kx, vid_of_sameTopo stF, vid_of_sameTopo stF]
+    exact (vid_of_vc I22.wf x0 (by rw [I22.n_eq]; exact xn) y0 (by rw [I22.n_eq]; exact yn)).2 hc
+  have hK21 : ∀ x y, x ≠ 0 → x < m.n → y ≠ 0 → y < m.n → VC m21 x y → K x = K y :=
+    fun x y x0 xn y0 yn hc => hK22 x y x0 xn y0 yn (mo22 _ _ hc)
+  have hK20 : ∀ x y, x ≠ 0 → x < m.n → y ≠ 0 → y < m.n → VC m20 x y → K x = K y :=
+    fun x y x0 xn y0 yn hc => hK21 x y x0 xn y0 yn (mo21 _ _ hc)
+  have hK19 : ∀ x y, x ≠ 0 → x < m.n → y ≠ 0 → y < m.n → VC m19 x y → K x = K y :=
+    fun x y x0 xn y0 yn hc => hK20 x y x0 xn y0 yn (mo20 _ _ hc)
+  have hK18 : ∀ x y, x ≠ 0 → x < m.n → y ≠ 0 → y < m.n → VC m18 x y → K x = K y :=
+    fun x y x0 xn y0 yn hc => hK19 x y x0 xn y0 yn (mo19 _ _ hc)
+  have hK17 : ∀ x y, x ≠ 0 → x < m.n → y ≠ 0 → y < m.n → VC m17 x y → K x = K y :=
+    fun x y x0 xn y0 yn hc => hK18 x y x0 xn y0 yn (mo18 _ _ hc)
+  have hK16 : ∀ x y, x ≠ 0 → x < m.n → y ≠ 0 → y < m.n → VC m16 x y → K x = K y :=
+    fun x y x0 xn y0 yn hc => hK17 x y x0 xn y0 yn (mo17 _ _ hc)
+  -- the new vertex has a colour of its own
+  have notN : ∀ x, x ≠ 0 → x < m.n → x ∉ [n1, n3, n4, n6] → K n1 ≠ K x := by
+    intro x x0 xn hx hh
+    rw [Kx, Kx] at hh
+    have r := (C03_same_id_iff_same_cell hw' (pol := .vertex) trivial n0.1 (by rw [hn']; exact s1.1.2.1) x0
+      (by rw [hn']; exact xn)).1.1 hh
+    exact hx ((hmem x).1 ((mem_orb hw' (pol := .vertex) trivial n0.1 (by rw [hn']; exact s1.1.2.1) x).2 ⟨x0, r⟩))
+  have kb := notN _ hb hbn (four _ (by simp))
+  have ka := notN _ a0 ha (four _ (by simp))
+  have kd := notN _ hd hdn (four _ (by simp))
+  have kc := notN _ c0 hc (four _ (by simp))
+  have k2 : K n1 ≠ K n2 := by rw [Kx n2, c2b, ← Kx]; exact kb
+  have k5 : K n1 ≠ K n5 := by rw [Kx n5, c5d, ← Kx]; exact kd
+  have k6 : K n6 = K n1 := by rw [Kx, Kx]; exact c6
+  -- the values
+  have iN : IsPt (avgVal va vb) := ⟨_, _, _, rfl⟩
+  have v14n1 : vval m14 n1 = some (avgVal va vb) := by rw [V14 _ n0.1 s1.1.2.1]; exact v7n1
+  have v14n6 : vval m14 n6 = none := by rw [V14 _ n0.2.2.2.2.2 s6.1.2.1]; exact v7n6
+  obtain ⟨v15n1, v15n6, _⟩ := sew_step_none cfg hL I14 fc14 Le L1 r15 (by rw [H2.1]; exact n0.2.2.2.2.2)
+    (by rw [H2.1]; exact v14n6) v14n1
+  rw [H2.1] at v15n6
+  have v18n1 : vval m18 n1 = some (avgVal va vb) := by
+    rw [k18 K hK18 _ n0.1 s1.1.2.1 k2, k17 K hK17 _ n0.1 s1.1.2.1 ka, k16 K hK16 _ n0.1 s1.1.2.1 kb]; exact v15n1
+  have v18n6 : vval m18 n6 = some (avgVal va vb) := by
+    rw [k18 K hK18 _ n0.2.2.2.2.2 s6.1.2.1 (by rw [k6]; exact k2),
+      k17 K hK17 _ n0.2.2.2.2.2 s6.1.2.1 (by rw [k6]; exact ka),
+      k16 K hK16 _ n0.2.2.2.2.2 s6.1.2.1 (by rw [k6]; exact kb)]
+    exact v15n6
+  have c13 : VC m18 n3 n1 := by
+    have p : VC m14 n1 n3 := Conn.fwd (.refl _) ⟨n2, H2.2.2.2.2.2.2.1, H1.1, n0.1, n0.2.2.1⟩
+    exact (mo18 _ _ (mo17 _ _ (mo16 _ _ (mo15 _ _ p)))).symm
+  have c46 : VC m18 n4 n6 := by
+    have p : VC m14 n4 n6 := Conn.fwd (.refl _) ⟨n5, H2.2.2.2.2.2.2.2, H1.2, n0.2.2.2.1, n0.2.2.2.2.2⟩
+    exact mo18 _ _ (mo17 _ _ (mo16 _ _ (mo15 _ _ p)))
+  have n18 := I18.n_eq
+  have v18n3 : vval m18 n3 = some (avgVal va vb) := by
+    unfold vval
+    rw [(vid_of_vc I18.wf n0.2.2.1 (by rw [n18]; exact s3.1.2.1) n0.1 (by rw [n18]; exact s1.1.2.1)).2 c13]
+    exact v18n1
+  have v18n4 : vval m18 n4 = some (avgVal va vb) := by
+    unfold vval
+    rw [(vid_of_vc I18.wf n0.2.2.2.1 (by rw [n18]; exact s4.1.2.1) n0.2.2.2.2.2 (by rw [n18]; exact s6.1.2.1)).2 c46]
+    exact v18n6
+  have B18 : m18.β 2 (m.β 2 e) = n3 := by rw [b18, b17, b16, b15]; exact H2.2.2.2.1
+  obtain ⟨_, _, all19⟩ := w19 (by rw [B18]; exact n0.2.2.1) _ _ (by rw [B18]; exact v18n3) v18n4 iN iN
+  rw [midV_self iN] at all19
+  have v19n1 : vval m19 n1 = some (avgVal va vb) := by
+    rcases all19 _ n0.1 s1.1.2.1 with hh | hh
+    · exact hh
+    · rw [hh]; exact v18n1
+  have v22n1 : vval m22 n1 = some (avgVal va vb) := by
+    rw [k22 K hK22 _ n0.1 s1.1.2.1 k5, k21 K hK21 _ n0.1 s1.1.2.1 kc, k20 K hK20 _ n0.1 s1.1.2.1 kd]; exact v19n1
+  refine ⟨va, vb, hva, hvb, hcid, ?_⟩
+  rw [attF, vid_of_sameTopo stF]
+  exact v22n1
+
+
+/-! ## non-vacuity: every theorem above applied to a concrete call -/
+
+/-- `C15_six_distinct` on the diagonal of the unit square -/
+example : [2, unitSquare.β 2 2, unitSquare.β 1 2, unitSquare.β 0 2, unitSquare.β 1 (unitSquare.β 2 2),
+    unitSquare.β 0 (unitSquare.β 2 2)].Nodup :=
+  C15_six_distinct (m := unitSquare) (by decide +kernel) (e := 2) (by decide +kernel) (by decide +kernel)
+    (by decide +kernel) (by decide +kernel) (by decide +kernel) (by decide +kernel) (by decide +kernel)
+    (by decide +kernel) (by decide +kernel) (by decide +kernel)
+
+/-- the swap theorems on `swap_edge(2)` of the unit square: 4 vertices, 5 edges, 2 faces before and after -/
+example : ∃ m', run (swapEdge (stdCfg 3 0) unitSquare.n 2) unitSquare = (.ok (), m') ∧
+    (iterVertices2 m').length = 4 ∧ (iterEdges2 m').length = 5 ∧ (iterFaces2 m').length = 2 ∧
+    cellId m' .vertex 2 = cellId m' .vertex (unitSquare.β 0 2) := by
+  have hrun := run_eq_of_fst (p := swapEdge (stdCfg 3 0) unitSquare.n 2) (m := unitSquare) (a := ()) (by decide +kernel)
+  have c := C15_swap_counts (stdCfg 3 0) unitSquare _ 2 (by decide) (by decide +kernel) hrun (by decide) (by decide)
+    (by decide)
+  have k := C15_swap_cells (stdCfg 3 0) unitSquare _ 2 (by decide) (by decide +kernel) hrun (by decide) (by decide)
+    (by decide)
+  refine ⟨_, hrun, ?_, ?_, ?_, k.2.1.1⟩
+  · rw [c.1]; decide +kernel
+  · rw [c.2.1]; decide +kernel
+  · rw [c.2.2]; decide +kernel
+
+/-- the outer-cut counts on `cut_outer_edge(1, [9, 8, 7])` of the unit square with three spare darts: the iterators
+    yield 7 vertices, 8 edges, 5 faces before (three spare darts each) and 5, 7, 3 after -/
+example : ∃ m', run (cutOuterEdge (stdCfg 3 0) sq3.n 1 9 8 7) sq3 = (.ok (), m') ∧
+    (iterVertices2 sq3).length = 7 ∧ (iterEdges2 sq3).length = 8 ∧ (iterFaces2 sq3).length = 5 ∧
+    (iterVertices2 m').length + 2 = 7 ∧ (iterEdges2 m').length + 1 = 8 ∧ (iterFaces2 m').length + 2 = 5 ∧
+    cellId m' .vertex 8 = cellId m' .vertex (sq3.β 0 1) := by
+  have hrun := run_eq_of_fst (p := cutOuterEdge (stdCfg 3 0) sq3.n 1 9 8 7) (m := sq3) (a := ()) (by decide +kernel)
+  have hw : WF 3 sq3 := by decide +kernel
+  have he : C01.InUse sq3 1 := by decide +kernel
+  have s9 : Spare sq3 9 := ⟨by decide +kernel, by decide +kernel⟩
+  have s8 : Spare sq3 8 := ⟨by decide +kernel, by decide +kernel⟩
+  have s7 : Spare sq3 7 := ⟨by decide +kernel, by decide +kernel⟩
+  have v := C15_cutOuter_vertices (stdCfg 3 0) sq3 _ 1 9 8 7 hw he hrun (by decide +kernel) (by decide +kernel)
+    (by decide +kernel) s9 s8 s7 (by decide +kernel)
+  have ec := C15_cutOuter_edge_count (stdCfg 3 0) sq3 _ 1 9 8 7 hw he hrun (by decide +kernel) (by decide +kernel)
+    s9 s8 s7 (by decide +kernel)
+  have fc := C15_cutOuter_face_count (stdCfg 3 0) sq3 _ 1 9 8 7 hw he hrun (by decide +kernel) (by decide +kernel)
+    s9 s8 s7 (by decide +kernel)
+  have vc := C15_cutOuter_vertex_count (stdCfg 3 0) sq3 _ 1 9 8 7 hw he hrun (by decide +kernel) (by decide +kernel)
+    (by decide +kernel) s9 s8 s7 (by decide +kernel)
+  have l1 : (iterVertices2 sq3).length = 7 := by decide +kernel
+  have l2 : (iterEdges2 sq3).length = 8 := by decide +kernel
+  have l3 : (iterFaces2 sq3).length = 5 := by decide +kernel
+  exact ⟨_, hrun, l1, l2, l3, by rw [vc, l1], by rw [ec, l2], by rw [fc, l3], v.2.2.1⟩
+
+/-- the inner-cut theorems on `cut_inner_edge(2, [12 … 7])` of the unit square with six spare darts: 10 vertices and 8
+    faces before (six spare darts each), 5 and 4 after; the new vertex has identifier 7 -/
+example : ∃ m', run (cutInnerEdge (stdCfg 3 0) sq6.n 2 12 11 10 9 8 7) sq6 = (.ok (), m') ∧
+    (iterVertices2 sq6).length = 10 ∧ (iterFaces2 sq6).length = 8 ∧
+    (iterVertices2 m').length + 5 = 10 ∧ (iterFaces2 m').length + 4 = 8 ∧ cellId m' .vertex 12 = 7 := by
+  have hrun := run_eq_of_fst (p := cutInnerEdge (stdCfg 3 0) sq6.n 2 12 11 10 9 8 7) (m := sq6) (a := ())
+    (by decide +kernel)
+  have hw : WF 3 sq6 := by decide +kernel
+  have he : C01.InUse sq6 2 := by decide +kernel
+  have hs : ∀ x, x ∈ [12, 11, 10, 9, 8, 7] → Spare sq6 x := by
+    intro x hx
+    simp only [List.mem_cons, List.mem_nil_iff, or_false] at hx
+    rcases hx with rfl | rfl | rfl | rfl | rfl | rfl <;> exact ⟨by decide +kernel, by decide +kernel⟩
+  have c := C15_cutInner_cells (stdCfg 3 0) sq6 _ 2 12 11 10 9 8 7 hw he hrun (by decide +kernel) (by decide +kernel)
+    (by decide +kernel) (by decide +kernel) (by decide +kernel) hs (by decide +kernel)
+  have vc := C15_cutInner_vertex_count (stdCfg 3 0) sq6 _ 2 12 11 10 9 8 7 hw he hrun (by decide +kernel)
+    (by decide +kernel) (by decide +kernel) (by decide +kernel) (by decide +kernel) hs (by decide +kernel)
+  have fc := C15_cutInner_face_count (stdCfg 3 0) sq6 _ 2 12 11 10 9 8 7 hw he hrun (by decide +kernel)
+    (by decide +kernel) (by decide +kernel) (by decide +kernel) (by decide +kernel) hs (by decide +kernel)
+  have l1 : (iterVertices2 sq6).length = 10 := by decide +kernel
+  have l3 : (iterFaces2 sq6).length = 8 := by decide +kernel
+  exact ⟨_, hrun, l1, l3, by rw [vc, l1], by rw [fc, l3], by rw [c.2.2.2.1]; decide⟩
+
+/-- the collapse face count on `collapse_edge(26)` of the 2 x 2 grid after one inner cut (`cutGrid`) -/
+example : ∃ m', run (collapseEdge (stdCfg 3 0) cutGrid.n 26) cutGrid = (.ok 3, m') ∧
+    (iterFaces2 m').length + 2 = (iterFaces2 cutGrid).length := by
+  have hrun := run_eq_of_fst (p := collapseEdge (stdCfg 3 0) cutGrid.n 26) (m := cutGrid) (a := 3) (by decide +kernel)
+  exact ⟨_, hrun, C15_collapse_midpoint_face_count (stdCfg 3 0) cutGrid _ 26 3 (by decide +kernel) (by decide +kernel)
+    (by decide +kernel) hrun (by decide +kernel) (by decide +kernel) (by decide +kernel) (by decide +kernel)
+    (by decide +kernel)⟩
+
+/-- `C15_swap_moves_corners` on `swap_edge(2)` of the unit square: `A = (1,0)`, `B = (0,1)`, `C = (0,0)`, `D = (1,1)`;
+    afterwards the vertex of dart 1 is at `(1/2, 0)` or `(1/4, 0)` and that of dart 6 at `(1/2, 1)` or `(3/4, 1)` -/
+example : ∃ m', run (swapEdge (stdCfg 3 0) unitSquare.n 2) unitSquare = (.ok (), m') ∧
+    (m'.att 0 (cellId m' .vertex 1) = some (.pt (1/2) 0 0) ∨ m'.att 0 (cellId m' .vertex 1) = some (.pt (1/4) 0 0)) ∧
+    (m'.att 0 (cellId m' .vertex 6) = some (.pt (1/2) 1 0) ∨ m'.att 0 (cellId m' .vertex 6) = some (.pt (3/4) 1 0)) := by
+  have hrun := run_eq_of_fst (p := swapEdge (stdCfg 3 0) unitSquare.n 2) (m := unitSquare) (a := ()) (by decide +kernel)
+  have k := C15_swap_moves_corners (stdCfg 3 0) rfl unitSquare _ 2 (by decide) (by decide) (by decide +kernel) hrun
+    (by decide) (by decide) (by decide) (by decide +kernel)
+    (A := .pt 1 0 0) (B := .pt 0 1 0) (C := .pt 0 0 0) (D := .pt 1 1 0) ⟨_, _, _, rfl⟩ ⟨_, _, _, rfl⟩ ⟨_, _, _, rfl⟩
+    ⟨_, _, _, rfl⟩ (by decide +kernel) (by decide +kernel) (by decide +kernel) (by decide +kernel)
+  have e1 : unitSquare.β 0 2 = 1 := by decide
+  have e2 : unitSquare.β 0 (unitSquare.β 2 2) = 6 := by decide
+  rw [e1, e2] at k
+  have m1 : midV (.pt 0 0 0) (.pt 1 0 0) = .pt (1/2) 0 0 := by decide +kernel
+  have m2 : midV (.pt (1/2) 0 0) (.pt 0 0 0) = .pt (1/4) 0 0 := by decide +kernel
+  have m3 : midV (.pt 0 1 0) (.pt 1 1 0) = .pt (1/2) 1 0 := by decide +kernel
+  have m4 : midV (.pt (1/2) 1 0) (.pt 1 1 0) = .pt (3/4) 1 0 := by decide +kernel
+  rw [m1, m2, m3, m4] at k
+  exact ⟨_, hrun, k.2.2.1, k.2.2.2⟩
+
+/-- `C15_cutInner_midpoint_in_final_map` on `cut_inner_edge(2, [12 … 7])` of the unit square: the new vertex has
+    identifier 7 and holds the average of `(1, 0)` and `(0, 1)` -/
+example : ∃ m', run (cutInnerEdge (stdCfg 3 0) sq6.n 2 12 11 10 9 8 7) sq6 = (.ok (), m') ∧
+    cellId m' .vertex 12 = 7 ∧ m'.att 0 7 = some (.pt (1/2) (1/2) 0) := by
+  have hrun := run_eq_of_fst (p := cutInnerEdge (stdCfg 3 0) sq6.n 2 12 11 10 9 8 7) (m := sq6) (a := ())
+    (by decide +kernel)
+  have hs : ∀ x, x ∈ [12, 11, 10, 9, 8, 7] → Spare sq6 x := by
+    intro x hx
+    simp only [List.mem_cons, List.mem_nil_iff, or_false] at hx
+    rcases hx with rfl | rfl | rfl | rfl | rfl | rfl <;> exact ⟨by decide +kernel, by decide +kernel⟩
+  have hnone : ∀ x, x ∈ [12, 11, 10, 9, 8, 7] → sq6.att 0 x = none := by
+    intro x hx
+    simp only [List.mem_cons, List.mem_nil_iff, or_false] at hx
+    rcases hx with rfl | rfl | rfl | rfl | rfl | rfl <;> decide +kernel
+  obtain ⟨va, vb, ha, hb, hid, hv⟩ := C15_cutInner_midpoint_in_final_map (stdCfg 3 0) rfl sq6 _ 2 12 11 10 9 8 7
+    (by decide +kernel) (by decide +kernel) (by decide +kernel) hrun (by decide +kernel) (by decide +kernel)
+    (by decide +kernel) (by decide +kernel) (by decide +kernel) hs hnone (by decide +kernel) (by decide +kernel)
+  have e1 : sq6.att 0 (cellId sq6 .vertex 2) = some (.pt 1 0 0) := by decide +kernel
+  have e2 : sq6.att 0 (cellId sq6 .vertex (sq6.β 1 2)) = some (.pt 0 1 0) := by decide +kernel
+  rw [e1] at ha; rw [e2] at hb
+  simp only [Option.some.injEq] at ha hb
+  have e3 : min 12 (min 10 (min 9 7)) = 7 := by decide
+  rw [e3] at hid
+  rw [hid, ← ha, ← hb] at hv
+  exact ⟨_, hrun, hid, by rw [hv]; decide +kernel⟩
 
 end HC.C15
